@@ -1,7 +1,27 @@
-//! C18 — (stub, under construction)
+//! C18 — CFF and CFF2 outlines follow Type 2 charstring semantics.
+//!
+//! Generator: abstract glyphs (closed contours of lines / cubic curves, optional width, stem hints
+//! and masks, seac composites, CFF2 deltas) -> random *equivalent* Type 2 encodings (operator
+//! forms, number encodings, width prefixes, hint operators, local / global subroutine factoring
+//! with the bias rule) -> name-keyed / CID-keyed CFF and CFF2 tables written by the independent
+//! writer in `c18_cff.rs`. Oracle: the path the Type 2 specification assigns to the abstract glyph
+//! (computed on the AST, never on bytes) must equal the commands allsorts delivers to the sink.
 
 use super::Prop;
 use crate::rt::*;
+use allsorts::binary::read::ReadScope;
+use allsorts::cff::cff2::CFF2;
+use allsorts::cff::outline::CFF2Outlines;
+use allsorts::cff::CFF;
+use allsorts::outline::{OutlineBuilder, OutlineSink};
+use allsorts::pathfinder_geometry::line_segment::LineSegment2F;
+use allsorts::pathfinder_geometry::vector::Vector2F;
+use allsorts::tables::variable_fonts::fvar::FvarTable;
+use allsorts::tables::F2Dot14;
+
+#[path = "c18_cff.rs"]
+pub mod cffw;
+use cffw::{op, Effect, SubrSpace, Tok};
 
 pub struct C18 {}
 
@@ -11,8 +31,2494 @@ impl C18 {
     }
 }
 
+const ONE: i64 = 65536;
+
+// ---------------------------------------------------------------------------------------------
+// Values: 16.16 default + per-region deltas (CFF2)
+// ---------------------------------------------------------------------------------------------
+
+#[derive(Clone, Debug, Default)]
+struct Val {
+    d: i64,
+    deltas: Vec<i64>,
+}
+
+impl Val {
+    fn int(v: i64) -> Val {
+        Val { d: v * ONE, deltas: Vec::new() }
+    }
+    fn zero() -> Val {
+        Val::default()
+    }
+    fn has_deltas(&self) -> bool {
+        self.deltas.iter().any(|&x| x != 0)
+    }
+    fn is_zero(&self) -> bool {
+        self.d == 0 && !self.has_deltas()
+    }
+    fn is_integer(&self) -> bool {
+        self.d % ONE == 0 && !self.has_deltas()
+    }
+    fn neg(&self) -> Val {
+        Val { d: -self.d, deltas: self.deltas.iter().map(|x| -x).collect() }
+    }
+    fn add(&self, o: &Val) -> Val {
+        let n = self.deltas.len().max(o.deltas.len());
+        let mut deltas = vec![0i64; n];
+        for (i, x) in self.deltas.iter().enumerate() {
+            deltas[i] += x;
+        }
+        for (i, x) in o.deltas.iter().enumerate() {
+            deltas[i] += x;
+        }
+        if deltas.iter().all(|&x| x == 0) {
+            deltas.clear();
+        }
+        Val { d: self.d + o.d, deltas }
+    }
+    fn same(&self, o: &Val) -> bool {
+        self.add(&o.neg()).is_zero()
+    }
+    fn slack(&self) -> i64 {
+        self.deltas.iter().map(|x| x.abs()).sum()
+    }
+    fn eval(&self, sc: &[f64]) -> f64 {
+        let mut v = self.d as f64 / ONE as f64;
+        for (i, &x) in self.deltas.iter().enumerate() {
+            if x != 0 {
+                v += sc.get(i).copied().unwrap_or(0.0) * (x as f64 / ONE as f64);
+            }
+        }
+        v
+    }
+    fn show(&self) -> String {
+        let f = |x: i64| {
+            if x % ONE == 0 {
+                format!("{}", x / ONE)
+            } else {
+                format!("{}", x as f64 / ONE as f64)
+            }
+        };
+        if self.has_deltas() {
+            format!("{}{{{}}}", f(self.d), self.deltas.iter().map(|&x| f(x)).collect::<Vec<_>>().join(","))
+        } else {
+            f(self.d)
+        }
+    }
+}
+
+fn sum(vs: &[&Val]) -> Val {
+    let mut s = Val::zero();
+    for v in vs {
+        s = s.add(v);
+    }
+    s
+}
+
+// ---------------------------------------------------------------------------------------------
+// AST
+// ---------------------------------------------------------------------------------------------
+
+#[derive(Clone, Debug)]
+enum Seg {
+    Line([Val; 2]),
+    Curve([Val; 6]),
+}
+
+impl Seg {
+    fn line(&self) -> Option<&[Val; 2]> {
+        match self {
+            Seg::Line(l) => Some(l),
+            _ => None,
+        }
+    }
+    fn curve(&self) -> Option<&[Val; 6]> {
+        match self {
+            Seg::Curve(c) => Some(c),
+            _ => None,
+        }
+    }
+    fn vals(&self) -> &[Val] {
+        match self {
+            Seg::Line(l) => &l[..],
+            Seg::Curve(c) => &c[..],
+        }
+    }
+}
+
+#[derive(Clone, Debug)]
+struct Contour {
+    start: [Val; 2],
+    segs: Vec<Seg>,
+}
+
+#[derive(Clone, Debug, Default)]
+struct Hints {
+    hstems: Vec<[Val; 2]>,
+    vstems: Vec<[Val; 2]>,
+    /// hintmask / cntrmask operators are used (then the stems are declared with hstemhm / vstemhm)
+    masks: bool,
+}
+
+#[derive(Clone, Debug)]
+struct Seac {
+    adx: Val,
+    ady: Val,
+    bchar: u8,
+    achar: u8,
+    /// index of the component glyphs in the font's glyph list
+    base: usize,
+    accent: usize,
+}
+
+#[derive(Clone, Debug, Default)]
+struct Glyph {
+    contours: Vec<Contour>,
+    /// CFF: value written in the charstring (advance - nominalWidthX); None = defaultWidthX
+    width: Option<i64>,
+    hints: Option<Hints>,
+    seac: Option<Seac>,
+    /// CFF2: ItemVariationData index used by this glyph and whether `vsindex` is written
+    vsindex: usize,
+    explicit_vsindex: bool,
+}
+
+impl Glyph {
+    fn n_segs(&self) -> usize {
+        self.contours.iter().map(|c| c.segs.len()).sum()
+    }
+    fn all_integer(&self) -> bool {
+        self.contours.iter().all(|c| c.start.iter().all(|v| v.is_integer()) && c.segs.iter().all(|s| s.vals().iter().all(|v| v.is_integer())))
+            && self.seac.as_ref().map_or(true, |s| s.adx.is_integer() && s.ady.is_integer())
+    }
+}
+
+// ---------------------------------------------------------------------------------------------
+// AST generation
+// ---------------------------------------------------------------------------------------------
+
+#[derive(Copy, Clone, Debug, PartialEq)]
+enum NumClass {
+    Int,
+    Fixed,
+    Mixed,
+}
+
+/// Parameters for generating the values of one glyph.
+#[derive(Clone, Debug)]
+struct GlyphGen {
+    numclass: NumClass,
+    /// number of regions of the glyph's ItemVariationData (deltas per value), 0 = no deltas
+    k: usize,
+    /// percentage of values carrying deltas
+    delta_pct: u32,
+    /// bound on |coordinate| in 16.16
+    lim: i64,
+    /// magnitude divider applied on retries
+    shrink: i64,
+    cff2: bool,
+    /// scalars of the glyph's regions at every tested tuple (one empty vec when not variable)
+    tuples: Vec<Vec<f64>>,
+}
+
+fn gen_int(rng: &mut Rng) -> i64 {
+    let v = match rng.below(20) {
+        0..=9 => rng.range(0, 107),
+        10..=14 => rng.range(108, 1131),
+        15 | 16 => *rng.pick(&[0i64, 1, 107, 108, 255, 256, 363, 364, 1131, 1132, 1133]),
+        17 | 18 => rng.range(1132, 5000),
+        _ => 0,
+    };
+    if rng.bool() {
+        -v
+    } else {
+        v
+    }
+}
+
+impl GlyphGen {
+    fn base(&self, rng: &mut Rng) -> i64 {
+        let fixed = match self.numclass {
+            NumClass::Int => false,
+            NumClass::Fixed => true,
+            NumClass::Mixed => rng.bool(),
+        };
+        if fixed {
+            match rng.below(3) {
+                // full 16 bit fraction, small integer part
+                0 => rng.range(-24 * ONE, 24 * ONE) / self.shrink,
+                // multiples of 1/256
+                1 => (rng.range(-300 * 256, 300 * 256) * 256) / self.shrink,
+                // halves and the smallest fractions
+                _ => *rng.pick(&[ONE / 2, -ONE / 2, 1, -1, ONE + 1, -ONE - 1, 3 * ONE / 2, 107 * ONE + ONE / 4]),
+            }
+        } else {
+            let mut v = gen_int(rng);
+            if self.numclass != NumClass::Int || self.k > 0 {
+                // keep non-integer / blended glyphs small so that the f32 arithmetic stays accurate
+                v = v % 400;
+            }
+            (v / self.shrink) * ONE
+        }
+    }
+    fn delta(&self, rng: &mut Rng) -> i64 {
+        match rng.below(8) {
+            0 => 0,
+            1 => rng.range(-40 * ONE, 40 * ONE),
+            2 => *rng.pick(&[ONE / 2, -ONE / 4, 107 * ONE, -108 * ONE]),
+            _ => rng.range(-60, 60) * ONE,
+        }
+    }
+    fn val(&self, rng: &mut Rng) -> Val {
+        let d = self.base(rng);
+        let deltas = if self.k > 0 && rng.chance(self.delta_pct, 100) {
+            (0..self.k).map(|_| self.delta(rng)).collect()
+        } else {
+            Vec::new()
+        };
+        Val { d, deltas }
+    }
+    /// non-degenerate most of the time
+    fn val_or_zero(&self, rng: &mut Rng, zero_pct: u32) -> Val {
+        if rng.chance(zero_pct, 100) {
+            Val::zero()
+        } else {
+            self.val(rng)
+        }
+    }
+}
+
+/// |a| > |b| at every tested tuple (Some(true)), |a| <= |b| at every tuple (Some(false)), or too
+/// close to call in floating point (None). Exact for integer values without deltas.
+fn abs_gt(a: &Val, b: &Val, exact: bool, tuples: &[Vec<f64>]) -> Option<bool> {
+    if exact {
+        return Some(a.d.abs() > b.d.abs());
+    }
+    let mut verdict: Option<bool> = None;
+    let empty: Vec<f64> = Vec::new();
+    let ts: Vec<&Vec<f64>> = if tuples.is_empty() { vec![&empty] } else { tuples.iter().collect() };
+    for sc in ts {
+        let (x, y) = (a.eval(sc).abs(), b.eval(sc).abs());
+        let v = if x > y + 0.05 {
+            true
+        } else if y > x + 0.05 {
+            false
+        } else {
+            return None;
+        };
+        if verdict.map_or(false, |p| p != v) {
+            return None;
+        }
+        verdict = Some(v);
+    }
+    verdict
+}
+
+fn curve(v: [Val; 6]) -> Seg {
+    Seg::Curve(v)
+}
+
+fn gen_segs(rng: &mut Rng, gg: &GlyphGen, target: usize, long_runs: bool) -> Vec<Seg> {
+    let mut v: Vec<Seg> = Vec::new();
+    let z = Val::zero;
+    while v.len() < target {
+        let pick = if long_runs { 16 + rng.below(5) } else { rng.below(16) };
+        match pick {
+            0 | 1 => v.push(Seg::Line([gg.val(rng), gg.val(rng)])),
+            2 | 3 => {
+                let n = 1 + rng.below(6);
+                let mut h = rng.bool();
+                for _ in 0..n {
+                    v.push(if h { Seg::Line([gg.val(rng), z()]) } else { Seg::Line([z(), gg.val(rng)]) });
+                    h = !h;
+                }
+            }
+            4 => {
+                if rng.chance(1, 3) {
+                    v.push(Seg::Line([z(), z()]));
+                } else if rng.bool() {
+                    v.push(Seg::Line([gg.val(rng), z()]));
+                } else {
+                    v.push(Seg::Line([z(), gg.val(rng)]));
+                }
+            }
+            5 | 6 => {
+                for _ in 0..1 + rng.below(3) {
+                    v.push(curve([gg.val(rng), gg.val(rng), gg.val(rng), gg.val(rng), gg.val(rng), gg.val(rng)]));
+                }
+            }
+            7 => {
+                for j in 0..1 + rng.below(4) {
+                    let dy1 = if j == 0 { gg.val_or_zero(rng, 50) } else { z() };
+                    v.push(curve([gg.val(rng), dy1, gg.val(rng), gg.val(rng), gg.val(rng), z()]));
+                }
+            }
+            8 => {
+                for j in 0..1 + rng.below(4) {
+                    let dx1 = if j == 0 { gg.val_or_zero(rng, 50) } else { z() };
+                    v.push(curve([dx1, gg.val(rng), gg.val(rng), gg.val(rng), z(), gg.val(rng)]));
+                }
+            }
+            9 | 10 | 19 | 20 => {
+                let n = if pick >= 19 { 8 + rng.below(if gg.cff2 { 60 } else { 8 }) } else { 1 + rng.below(5) };
+                let mut h = pick == 9 || pick == 19;
+                for j in 0..n {
+                    let last = j + 1 == n;
+                    let tail = if last { gg.val_or_zero(rng, 50) } else { z() };
+                    if h {
+                        v.push(curve([gg.val(rng), z(), gg.val(rng), gg.val(rng), tail, gg.val(rng)]));
+                    } else {
+                        v.push(curve([z(), gg.val(rng), gg.val(rng), gg.val(rng), gg.val(rng), tail]));
+                    }
+                    h = !h;
+                }
+            }
+            11 => {
+                let dy2 = gg.val(rng);
+                v.push(curve([gg.val(rng), z(), gg.val(rng), dy2.clone(), gg.val(rng), z()]));
+                v.push(curve([gg.val(rng), z(), gg.val(rng), dy2.neg(), gg.val(rng), z()]));
+            }
+            12 => {
+                let (dy1, dy2, dy5) = (gg.val(rng), gg.val(rng), gg.val(rng));
+                let back = sum(&[&dy1, &dy2, &dy5]).neg();
+                v.push(curve([gg.val(rng), dy1, gg.val(rng), dy2, gg.val(rng), z()]));
+                v.push(curve([gg.val(rng), z(), gg.val(rng), dy5, gg.val(rng), back]));
+            }
+            13 => {
+                let c1 = [gg.val(rng), gg.val(rng), gg.val(rng), gg.val(rng), gg.val(rng), gg.val(rng)];
+                let (dx4, dy4, dx5, dy5) = (gg.val(rng), gg.val(rng), gg.val(rng), gg.val(rng));
+                let dx = sum(&[&c1[0], &c1[2], &c1[4], &dx4, &dx5]);
+                let dy = sum(&[&c1[1], &c1[3], &c1[5], &dy4, &dy5]);
+                let exact = c1.iter().chain([&dx4, &dy4, &dx5, &dy5]).all(|x| x.is_integer());
+                let d6 = gg.val(rng);
+                let (dx6, dy6) = match abs_gt(&dx, &dy, exact, &gg.tuples) {
+                    Some(true) => (d6, dy.neg()),
+                    Some(false) => (dx.neg(), d6),
+                    None => (d6, gg.val(rng)),
+                };
+                v.push(curve(c1));
+                v.push(curve([dx4, dy4, dx5, dy5, dx6, dy6]));
+            }
+            14 => {
+                for _ in 0..1 + rng.below(3) {
+                    v.push(Seg::Line([gg.val(rng), gg.val(rng)]));
+                }
+                v.push(curve([gg.val(rng), gg.val(rng), gg.val(rng), gg.val(rng), gg.val(rng), gg.val(rng)]));
+            }
+            15 => {
+                for _ in 0..1 + rng.below(3) {
+                    v.push(curve([gg.val(rng), gg.val(rng), gg.val(rng), gg.val(rng), gg.val(rng), gg.val(rng)]));
+                }
+                v.push(Seg::Line([gg.val(rng), gg.val(rng)]));
+            }
+            16 => {
+                for _ in 0..10 + rng.below(if gg.cff2 { 250 } else { 30 }) {
+                    v.push(Seg::Line([gg.val(rng), gg.val(rng)]));
+                }
+            }
+            17 => {
+                let mut h = rng.bool();
+                for _ in 0..10 + rng.below(if gg.cff2 { 500 } else { 60 }) {
+                    v.push(if h { Seg::Line([gg.val(rng), z()]) } else { Seg::Line([z(), gg.val(rng)]) });
+                    h = !h;
+                }
+            }
+            _ => {
+                for _ in 0..6 + rng.below(if gg.cff2 { 80 } else { 6 }) {
+                    v.push(curve([gg.val(rng), gg.val(rng), gg.val(rng), gg.val(rng), gg.val(rng), gg.val(rng)]));
+                }
+            }
+        }
+    }
+    v
+}
+
+/// Pen position bookkeeping for the coordinate bound: default position and accumulated |deltas|.
+#[derive(Clone, Copy, Debug, Default)]
+struct Pen {
+    x: i64,
+    y: i64,
+    slack: i64,
+}
+
+impl Pen {
+    fn step(&mut self, dx: &Val, dy: &Val, lim: i64) -> bool {
+        self.x += dx.d;
+        self.y += dy.d;
+        self.slack += dx.slack() + dy.slack();
+        self.x.abs() + self.slack <= lim && self.y.abs() + self.slack <= lim
+    }
+}
+
+fn contour_in_bounds(pen: &mut Pen, c: &Contour, lim: i64) -> bool {
+    let mut ok = pen.step(&c.start[0], &c.start[1], lim);
+    for s in &c.segs {
+        match s {
+            Seg::Line(l) => ok &= pen.step(&l[0], &l[1], lim),
+            Seg::Curve(k) => {
+                ok &= pen.step(&k[0], &k[1], lim);
+                ok &= pen.step(&k[2], &k[3], lim);
+                ok &= pen.step(&k[4], &k[5], lim);
+            }
+        }
+    }
+    ok
+}
+
+fn gen_contour(rng: &mut Rng, gg: &GlyphGen, pen: &mut Pen, target: usize, long_runs: bool) -> Contour {
+    let mut g = gg.clone();
+    for _ in 0..6 {
+        let start = match rng.below(6) {
+            0 => [g.val(rng), Val::zero()],
+            1 => [Val::zero(), g.val(rng)],
+            2 if rng.chance(1, 4) => [Val::zero(), Val::zero()],
+            _ => [g.val(rng), g.val(rng)],
+        };
+        let c = Contour { start, segs: gen_segs(rng, &g, target, long_runs) };
+        let mut p = *pen;
+        if contour_in_bounds(&mut p, &c, g.lim) {
+            *pen = p;
+            return c;
+        }
+        g.shrink *= 4;
+    }
+    // walk back towards the origin with an empty contour
+    let back = |v: i64| Val::int((-v / ONE).clamp(-1000, 1000));
+    let c = Contour { start: [back(pen.x), back(pen.y)], segs: Vec::new() };
+    let lim = i64::MAX / 4;
+    contour_in_bounds(pen, &c, lim);
+    c
+}
+
+fn gen_hints(rng: &mut Rng, gg: &GlyphGen) -> Hints {
+    let total = match rng.below(20) {
+        0..=6 => 1 + rng.below(7),
+        7 | 8 => 8,
+        9..=12 => 9 + rng.below(7),
+        13 | 14 => 16,
+        15..=17 => 17 + rng.below(8),
+        _ => 25 + rng.below(16),
+    };
+    let nh = match rng.below(5) {
+        0 => 0,
+        1 => total,
+        _ => rng.below(total + 1),
+    };
+    let stem = |rng: &mut Rng| -> [Val; 2] {
+        let w = if rng.chance(1, 8) { Val::int(*rng.pick(&[-20i64, -21])) } else { gg.val(rng) };
+        [gg.val(rng), w]
+    };
+    Hints {
+        hstems: (0..nh).map(|_| stem(rng)).collect(),
+        vstems: (0..total - nh).map(|_| stem(rng)).collect(),
+        masks: rng.chance(2, 3),
+    }
+}
+
+fn gen_glyph(rng: &mut Rng, gg: &GlyphGen, with_width: bool) -> Glyph {
+    let mut g = Glyph::default();
+    let nc = match rng.below(12) {
+        0 => 0,
+        1..=5 => 1,
+        6..=8 => 2,
+        9 | 10 => 3,
+        _ => 4,
+    };
+    let mut pen = Pen::default();
+    for _ in 0..nc {
+        let long_runs = rng.chance(if gg.cff2 { 6 } else { 3 }, 100);
+        let target = match rng.below(20) {
+            0 => 0,
+            1..=8 => 1 + rng.below(4),
+            9..=16 => 5 + rng.below(8),
+            17 | 18 => 13 + rng.below(28),
+            _ => 41 + rng.below(50),
+        };
+        g.contours.push(gen_contour(rng, gg, &mut pen, if long_runs { 1 } else { target }, long_runs));
+    }
+    if with_width && rng.chance(3, 5) {
+        g.width = Some(gen_int(rng));
+    }
+    if rng.chance(2, 5) {
+        g.hints = Some(gen_hints(rng, gg));
+    }
+    g
+}
+
+// ---------------------------------------------------------------------------------------------
+// Reference path (Type 2 semantics evaluated on the AST)
+// ---------------------------------------------------------------------------------------------
+
+#[derive(Clone, Debug)]
+enum ECmd {
+    Move([f64; 2]),
+    Line([f64; 2]),
+    Curve([f64; 6]),
+    Close,
+}
+
+/// Where an expected command comes from: (contour, None) = its moveto / close, (contour, Some(s)) = segment s.
+type Src = (usize, Option<usize>);
+
+/// Path of `g` at the scalars `sc`, with the pen starting at `origin` (seac accents start at (adx, ady)).
+fn expected_path(g: &Glyph, sc: &[f64], origin: (f64, f64)) -> (Vec<ECmd>, Vec<Src>) {
+    let (mut x, mut y) = origin;
+    let mut out = Vec::new();
+    let mut src = Vec::new();
+    for (ci, c) in g.contours.iter().enumerate() {
+        x += c.start[0].eval(sc);
+        y += c.start[1].eval(sc);
+        out.push(ECmd::Move([x, y]));
+        src.push((ci, None));
+        for (si, s) in c.segs.iter().enumerate() {
+            match s {
+                Seg::Line(l) => {
+                    x += l[0].eval(sc);
+                    y += l[1].eval(sc);
+                    out.push(ECmd::Line([x, y]));
+                }
+                Seg::Curve(k) => {
+                    let x1 = x + k[0].eval(sc);
+                    let y1 = y + k[1].eval(sc);
+                    let x2 = x1 + k[2].eval(sc);
+                    let y2 = y1 + k[3].eval(sc);
+                    x = x2 + k[4].eval(sc);
+                    y = y2 + k[5].eval(sc);
+                    out.push(ECmd::Curve([x1, y1, x2, y2, x, y]));
+                }
+            }
+            src.push((ci, Some(si)));
+        }
+        out.push(ECmd::Close);
+        src.push((ci, None));
+    }
+    (out, src)
+}
+
+fn show_ecmd(c: &ECmd) -> String {
+    match c {
+        ECmd::Move(p) => format!("M {} {}", p[0], p[1]),
+        ECmd::Line(p) => format!("L {} {}", p[0], p[1]),
+        ECmd::Curve(p) => format!("C {} {} {} {} {} {}", p[0], p[1], p[2], p[3], p[4], p[5]),
+        ECmd::Close => "Z".to_string(),
+    }
+}
+
+// ---------------------------------------------------------------------------------------------
+// Observed path
+// ---------------------------------------------------------------------------------------------
+
+#[derive(Clone, Debug, PartialEq)]
+enum OCmd {
+    Move([f32; 2]),
+    Line([f32; 2]),
+    Quad([f32; 4]),
+    Curve([f32; 6]),
+    Close,
+}
+
+#[derive(Default)]
+struct Rec(Vec<OCmd>);
+
+impl OutlineSink for Rec {
+    fn move_to(&mut self, to: Vector2F) {
+        self.0.push(OCmd::Move([to.x(), to.y()]));
+    }
+    fn line_to(&mut self, to: Vector2F) {
+        self.0.push(OCmd::Line([to.x(), to.y()]));
+    }
+    fn quadratic_curve_to(&mut self, c: Vector2F, to: Vector2F) {
+        self.0.push(OCmd::Quad([c.x(), c.y(), to.x(), to.y()]));
+    }
+    fn cubic_curve_to(&mut self, c: LineSegment2F, to: Vector2F) {
+        self.0.push(OCmd::Curve([c.from().x(), c.from().y(), c.to().x(), c.to().y(), to.x(), to.y()]));
+    }
+    fn close(&mut self) {
+        self.0.push(OCmd::Close);
+    }
+}
+
+fn show_ocmd(c: &OCmd) -> String {
+    match c {
+        OCmd::Move(p) => format!("M {} {}", p[0], p[1]),
+        OCmd::Line(p) => format!("L {} {}", p[0], p[1]),
+        OCmd::Quad(p) => format!("Q {} {} {} {}", p[0], p[1], p[2], p[3]),
+        OCmd::Curve(p) => format!("C {} {} {} {} {} {}", p[0], p[1], p[2], p[3], p[4], p[5]),
+        OCmd::Close => "Z".to_string(),
+    }
+}
+
+fn ulp_f32(m: f64) -> f64 {
+    let e = m.abs().max(1.0).log2().floor() as i32;
+    2f64.powi(e - 23)
+}
+
+/// Compare; Ok(explicit closing lines seen) or Err((index into expected, description)).
+fn compare_paths(exp: &[ECmd], obs: &[OCmd], exact: bool) -> Result<u32, (usize, String)> {
+    let maxabs = exp
+        .iter()
+        .flat_map(|c| match c {
+            ECmd::Move(p) | ECmd::Line(p) => p.to_vec(),
+            ECmd::Curve(p) => p.to_vec(),
+            ECmd::Close => Vec::new(),
+        })
+        .fold(1.0f64, |m, v| m.max(v.abs()));
+    let ulp = ulp_f32(maxabs);
+    let near = |e: &[f64], o: &[f32], idx: usize| -> bool {
+        let tol = if exact { 0.0 } else { 1e-3 + (idx + 1) as f64 * 4.0 * ulp };
+        e.iter().zip(o.iter()).all(|(&a, &b)| if exact { a as f32 == b && (b as f64) == a } else { (a - b as f64).abs() <= tol })
+    };
+    let mut oi = 0usize;
+    let mut start = [0.0f64; 2];
+    let mut closing = 0u32;
+    for (ei, e) in exp.iter().enumerate() {
+        let o = obs.get(oi);
+        let ok = match (e, o) {
+            (ECmd::Move(p), Some(OCmd::Move(q))) => {
+                start = *p;
+                near(p, q, ei)
+            }
+            (ECmd::Line(p), Some(OCmd::Line(q))) => near(p, q, ei),
+            (ECmd::Curve(p), Some(OCmd::Curve(q))) => near(p, q, ei),
+            (ECmd::Close, Some(OCmd::Close)) => true,
+            (ECmd::Close, Some(OCmd::Line(q))) => {
+                // the single documented ambiguity: an explicit closing line back to the start point
+                if near(&start, q, ei) && obs.get(oi + 1) == Some(&OCmd::Close) {
+                    oi += 1;
+                    closing += 1;
+                    true
+                } else {
+                    false
+                }
+            }
+            _ => false,
+        };
+        if !ok {
+            return Err((
+                ei,
+                format!("command {}: expected `{}` observed `{}`", ei, show_ecmd(e), o.map_or("<end of path>".to_string(), show_ocmd)),
+            ));
+        }
+        oi += 1;
+    }
+    if oi != obs.len() {
+        return Err((exp.len(), format!("{} extra command(s) after the expected path, first `{}`", obs.len() - oi, show_ocmd(&obs[oi]))));
+    }
+    Ok(closing)
+}
+
+// ---------------------------------------------------------------------------------------------
+// Type 2 encoder: AST -> flat token list (every choice random among the equivalent forms)
+// ---------------------------------------------------------------------------------------------
+
+struct Enc<'r> {
+    rng: &'r mut Rng,
+    toks: Vec<Tok>,
+    limit: usize,
+    cff2: bool,
+    /// regions of the glyph's ItemVariationData; None = blend must not be used
+    k: Option<usize>,
+    tuples: Vec<Vec<f64>>,
+    classes: Vec<String>,
+    width: Option<i64>,
+    first_clear: bool,
+    /// operator form that encoded each segment / moveto, per contour
+    seg_tags: Vec<Vec<&'static str>>,
+    move_tags: Vec<&'static str>,
+    max_args: usize,
+    n_stems: usize,
+    implicit_vstem: bool,
+    fail: Option<String>,
+}
+
+fn pick_n(rng: &mut Rng, max: usize) -> usize {
+    if max <= 1 {
+        return max;
+    }
+    match rng.below(10) {
+        0..=4 => 1 + rng.below(max.min(3)),
+        5..=7 => 1 + rng.below(max),
+        _ => max,
+    }
+}
+
+impl<'r> Enc<'r> {
+    fn class(&mut self, s: &str) {
+        if !self.classes.iter().any(|c| c == s) {
+            self.classes.push(s.to_string());
+        }
+    }
+
+    fn num(&mut self, raw: i64) {
+        if raw % ONE == 0 && (-32768..=32767).contains(&(raw / ONE)) {
+            let v = raw / ONE;
+            let encs = cffw::int_encodings(v);
+            let enc = if self.rng.chance(3, 5) { encs[0] } else { *self.rng.pick(&encs) };
+            match Tok::int(v, enc) {
+                Some(t) => {
+                    self.toks.push(t);
+                    self.class(&format!("num:{}", enc.name()));
+                }
+                None => self.fail = Some("int encoding".to_string()),
+            }
+        } else if raw >= i32::MIN as i64 && raw <= i32::MAX as i64 {
+            self.toks.push(Tok::fixed(raw as i32));
+            self.class("num:5-byte-fixed");
+            if raw % ONE != 0 {
+                self.class("num:fraction");
+            }
+        } else {
+            self.fail = Some("number out of range".to_string());
+        }
+    }
+
+    /// Arguments available to the next operator (the pending width takes one slot).
+    fn avail(&self) -> usize {
+        let w = if self.first_clear && self.width.is_some() { 1 } else { 0 };
+        let blend_room = match self.k {
+            // a blended operand at position j needs j + k + 2 slots transiently
+            Some(k) if self.cff2 => k + 2,
+            _ => 0,
+        };
+        self.limit - w - blend_room
+    }
+
+    /// Push operands; CFF2 values with deltas go through `blend` (values without deltas may be
+    /// included in a blend group with zero deltas).
+    fn args(&mut self, vals: &[Val], base_depth: usize) {
+        let k = match self.k {
+            Some(k) if self.cff2 => k,
+            _ => {
+                for v in vals {
+                    if v.has_deltas() {
+                        self.fail = Some("deltas without variation data".to_string());
+                    }
+                    self.num(v.d);
+                }
+                return;
+            }
+        };
+        let mut j = 0usize;
+        while j < vals.len() {
+            let depth = base_depth + j;
+            let nmax_stack = (self.limit.saturating_sub(depth + 1)) / (k + 1);
+            let want_blend = vals[j].has_deltas() || self.rng.chance(1, 12);
+            if !want_blend || nmax_stack == 0 {
+                if vals[j].has_deltas() {
+                    self.fail = Some("no room for blend".to_string());
+                }
+                self.num(vals[j].d);
+                j += 1;
+                continue;
+            }
+            let nmax = nmax_stack.min(vals.len() - j);
+            let n = match self.rng.below(4) {
+                0 => 1,
+                1 => nmax,
+                _ => 1 + self.rng.below(nmax.min(8)),
+            };
+            for v in &vals[j..j + n] {
+                self.num(v.d);
+            }
+            for v in &vals[j..j + n] {
+                for r in 0..k {
+                    self.num(v.deltas.get(r).copied().unwrap_or(0));
+                }
+            }
+            self.num(n as i64 * ONE);
+            self.toks.push(Tok::blend(n, k));
+            self.class("blend");
+            if n > 1 {
+                self.class("blend:n>1");
+            }
+            if k == 0 {
+                self.class("blend:k=0");
+            }
+            j += n;
+        }
+    }
+
+    /// Emit `[width] vals op` for a stack clearing operator.
+    fn clear_op(&mut self, name: &str, vals: &[Val], tok: Tok, takes_width: bool) {
+        let mut base = 0;
+        if takes_width && self.first_clear {
+            self.first_clear = false;
+            if let Some(w) = self.width.take() {
+                self.num(w * ONE);
+                self.class(&format!("width-prefix:{}", name));
+                base = 1;
+            }
+        }
+        if !takes_width && self.first_clear && self.width.is_some() {
+            self.fail = Some(format!("{} before the width", name));
+        }
+        self.args(vals, base);
+        self.max_args = self.max_args.max(vals.len() + base);
+        if vals.len() + base == self.limit {
+            self.class("stack-full");
+        }
+        if self.cff2 && vals.len() > 48 {
+            self.class("cff2:args>48");
+        }
+        self.toks.push(tok);
+        self.class(&format!("op:{}", name));
+    }
+
+    fn mask_bytes(&mut self) -> Vec<u8> {
+        let n = (self.n_stems + 7) / 8;
+        (0..n)
+            .map(|_| {
+                if self.rng.chance(1, 3) {
+                    // bytes that would be operators / number prefixes if the mask length were misjudged
+                    *self.rng.pick(&[0x0eu8, 0x0b, 0x0a, 0x1d, 0x1c, 0xff, 0x13, 0x14, 0x0c, 0x15, 0x01, 0x00])
+                } else {
+                    self.rng.u8()
+                }
+            })
+            .collect()
+    }
+
+    fn mask_op(&mut self, hint: bool, implicit: &[Val]) {
+        let bytes = self.mask_bytes();
+        self.class(&format!("hintmask:{}-bytes", bytes.len()));
+        let (o, name) = if hint { (op::HINTMASK, "hintmask") } else { (op::CNTRMASK, "cntrmask") };
+        self.clear_op(name, implicit, Tok::mask(o, &bytes), true);
+    }
+
+    fn stems(&mut self, stems: &[[Val; 2]], o: u8, name: &str) -> Vec<Val> {
+        // returns the operands of the last chunk when `o` == 0 (left on the stack: implicit vstem)
+        let mut i = 0;
+        while i < stems.len() {
+            let room = (self.avail() / 2).max(1);
+            let n = pick_n(self.rng, room.min(stems.len() - i));
+            let vals: Vec<Val> = stems[i..i + n].iter().flat_map(|s| s.iter().cloned()).collect();
+            i += n;
+            if i == stems.len() && o == 0 {
+                return vals;
+            }
+            let real = if o == 0 { op::VSTEMHM } else { o };
+            let real_name = if o == 0 { "vstemhm" } else { name };
+            self.clear_op(real_name, &vals, Tok::op(real), true);
+        }
+        Vec::new()
+    }
+
+    fn hints(&mut self, h: &Hints) {
+        self.n_stems = h.hstems.len() + h.vstems.len();
+        let (ho, hn, vo, vn) = if h.masks {
+            (op::HSTEMHM, "hstemhm", op::VSTEMHM, "vstemhm")
+        } else {
+            (op::HSTEM, "hstem", op::VSTEM, "vstem")
+        };
+        self.stems(&h.hstems, ho, hn);
+        if !h.masks {
+            self.stems(&h.vstems, vo, vn);
+            return;
+        }
+        // TN 5177 4.3: "If hstem and vstem hints are both declared at the beginning of a charstring,
+        // and this sequence is followed directly by the hintmask or cntrmask operators, the vstem
+        // hint operator need not be included." The width rule additionally names hintmask / cntrmask
+        // as possible first stack clearing operators, i.e. vstem-only implicit declarations.
+        let implicit = !h.vstems.is_empty() && self.rng.chance(1, 2) && (!h.hstems.is_empty() || self.rng.chance(1, 3));
+        let mut left: Vec<Val> = Vec::new();
+        if implicit {
+            left = self.stems(&h.vstems, 0, "");
+            self.implicit_vstem = true;
+            self.class("implicit-vstem");
+        } else {
+            self.stems(&h.vstems, vo, vn);
+        }
+        let n_cntr = if self.rng.chance(1, 3) { 1 + self.rng.below(2) } else { 0 };
+        let initial_hint = implicit && n_cntr == 0 || self.rng.chance(1, 2);
+        for _ in 0..n_cntr {
+            let l = std::mem::take(&mut left);
+            self.mask_op(false, &l);
+        }
+        if initial_hint {
+            let l = std::mem::take(&mut left);
+            self.mask_op(true, &l);
+        }
+    }
+
+    fn moveto(&mut self, start: &[Val; 2]) {
+        let mut forms: Vec<u8> = vec![op::RMOVETO];
+        if start[1].is_zero() {
+            forms.push(op::HMOVETO);
+            forms.push(op::HMOVETO);
+        }
+        if start[0].is_zero() {
+            forms.push(op::VMOVETO);
+            forms.push(op::VMOVETO);
+        }
+        let f = *self.rng.pick(&forms);
+        let (name, vals): (&'static str, Vec<Val>) = match f {
+            op::HMOVETO => ("hmoveto", vec![start[0].clone()]),
+            op::VMOVETO => ("vmoveto", vec![start[1].clone()]),
+            _ => ("rmoveto", vec![start[0].clone(), start[1].clone()]),
+        };
+        self.clear_op(name, &vals, Tok::op(f), true);
+        self.move_tags.push(name);
+    }
+
+    /// hvcurveto / vhcurveto chain validity: number of curves from `i` that can form a chain
+    /// starting horizontal (`h`) or vertical.
+    fn chain_len(segs: &[Seg], i: usize, mut h: bool) -> usize {
+        let mut n = 0;
+        while let Some(c) = segs.get(i + n).and_then(|s| s.curve()) {
+            let start_ok = if h { c[1].is_zero() } else { c[0].is_zero() };
+            if !start_ok {
+                break;
+            }
+            n += 1;
+            let end_ok = if h { c[4].is_zero() } else { c[5].is_zero() };
+            if !end_ok {
+                break;
+            }
+            h = !h;
+        }
+        n
+    }
+
+    fn segs(&mut self, ci: usize, segs: &[Seg], masks: bool) {
+        let mut tags: Vec<&'static str> = Vec::with_capacity(segs.len());
+        let mut i = 0usize;
+        while i < segs.len() {
+            if masks && self.rng.chance(1, 8) {
+                self.mask_op(true, &[]);
+                self.class("hintmask:between-segments");
+            }
+            let avail = self.avail();
+            // run lengths
+            let mut nl = 0;
+            while segs.get(i + nl).map_or(false, |s| s.line().is_some()) {
+                nl += 1;
+            }
+            let mut nc = 0;
+            while segs.get(i + nc).map_or(false, |s| s.curve().is_some()) {
+                nc += 1;
+            }
+            // candidate forms: (name, max count)
+            let mut cand: Vec<(&'static str, usize)> = Vec::new();
+            if nl > 0 {
+                cand.push(("rlineto", nl.min(avail / 2)));
+                let alt = |mut h: bool| -> usize {
+                    let mut n = 0;
+                    while let Some(l) = segs.get(i + n).and_then(|s| s.line()) {
+                        if !(if h { l[1].is_zero() } else { l[0].is_zero() }) {
+                            break;
+                        }
+                        n += 1;
+                        h = !h;
+                    }
+                    n
+                };
+                let (ah, av) = (alt(true), alt(false));
+                if ah > 0 {
+                    cand.push(("hlineto", ah.min(avail)));
+                    cand.push(("hlineto", ah.min(avail)));
+                }
+                if av > 0 {
+                    cand.push(("vlineto", av.min(avail)));
+                    cand.push(("vlineto", av.min(avail)));
+                }
+                if segs.get(i + nl).map_or(false, |s| s.curve().is_some()) && 2 * nl + 6 <= avail {
+                    cand.push(("rlinecurve", nl));
+                    cand.push(("rlinecurve", nl));
+                }
+            } else {
+                let c0 = segs[i].curve().unwrap_or_else(|| unreachable!());
+                cand.push(("rrcurveto", nc.min(avail / 6)));
+                if segs.get(i + nc).map_or(false, |s| s.line().is_some()) && 6 * nc + 2 <= avail {
+                    cand.push(("rcurveline", nc));
+                    cand.push(("rcurveline", nc));
+                }
+                // hhcurveto / vvcurveto
+                let run = |a: usize, b: usize| -> usize {
+                    // first curve: component b (end tangent) zero; later: a and b zero
+                    let mut n = 0;
+                    while let Some(c) = segs.get(i + n).and_then(|s| s.curve()) {
+                        if !c[b].is_zero() || (n > 0 && !c[a].is_zero()) {
+                            break;
+                        }
+                        n += 1;
+                    }
+                    n
+                };
+                let hh = run(1, 5).min((avail.saturating_sub(1)) / 4);
+                let vv = run(0, 4).min((avail.saturating_sub(1)) / 4);
+                if hh > 0 {
+                    cand.push(("hhcurveto", hh));
+                    cand.push(("hhcurveto", hh));
+                }
+                if vv > 0 {
+                    cand.push(("vvcurveto", vv));
+                    cand.push(("vvcurveto", vv));
+                }
+                let hv = Self::chain_len(segs, i, true).min((avail.saturating_sub(1)) / 4);
+                let vh = Self::chain_len(segs, i, false).min((avail.saturating_sub(1)) / 4);
+                if hv > 0 {
+                    cand.push(("hvcurveto", hv));
+                    cand.push(("hvcurveto", hv));
+                }
+                if vh > 0 {
+                    cand.push(("vhcurveto", vh));
+                    cand.push(("vhcurveto", vh));
+                }
+                if let Some(c1) = segs.get(i + 1).and_then(|s| s.curve()) {
+                    if avail >= 13 {
+                        cand.push(("flex", 2));
+                    }
+                    if c0[1].is_zero() && c0[5].is_zero() && c1[1].is_zero() && c1[5].is_zero() && c1[3].same(&c0[3].neg()) {
+                        for _ in 0..4 {
+                            cand.push(("hflex", 2));
+                        }
+                    }
+                    if c0[5].is_zero() && c1[1].is_zero() && sum(&[&c0[1], &c0[3], &c1[3], &c1[5]]).is_zero() {
+                        for _ in 0..4 {
+                            cand.push(("hflex1", 2));
+                        }
+                    }
+                    let dx = sum(&[&c0[0], &c0[2], &c0[4], &c1[0], &c1[2]]);
+                    let dy = sum(&[&c0[1], &c0[3], &c0[5], &c1[1], &c1[3]]);
+                    let exact = c0.iter().chain(c1[..4].iter()).all(|v| v.is_integer());
+                    match abs_gt(&dx, &dy, exact, &self.tuples) {
+                        Some(true) if c1[5].same(&dy.neg()) => {
+                            for _ in 0..4 {
+                                cand.push(("flex1:dx", 2));
+                            }
+                        }
+                        Some(false) if c1[4].same(&dx.neg()) => {
+                            for _ in 0..4 {
+                                cand.push(("flex1:dy", 2));
+                            }
+                        }
+                        _ => {}
+                    }
+                }
+            }
+            cand.retain(|c| c.1 > 0);
+            if cand.is_empty() {
+                self.fail = Some("no operator form fits".to_string());
+                return;
+            }
+            let (form, maxn) = *self.rng.pick(&cand);
+            let z = Val::zero();
+            let mut vals: Vec<Val> = Vec::new();
+            let used;
+            match form {
+                "rlineto" => {
+                    used = pick_n(self.rng, maxn);
+                    for s in &segs[i..i + used] {
+                        vals.extend_from_slice(s.vals());
+                    }
+                    self.clear_op(form, &vals, Tok::op(op::RLINETO), false);
+                    tags.extend(std::iter::repeat(form).take(used));
+                }
+                "hlineto" | "vlineto" => {
+                    used = pick_n(self.rng, maxn);
+                    let mut h = form == "hlineto";
+                    for s in &segs[i..i + used] {
+                        let l = s.line().unwrap_or_else(|| unreachable!());
+                        vals.push(if h { l[0].clone() } else { l[1].clone() });
+                        h = !h;
+                    }
+                    let o = if form == "hlineto" { op::HLINETO } else { op::VLINETO };
+                    self.clear_op(form, &vals, Tok::op(o), false);
+                    if used > 1 {
+                        self.class(&format!("op:{}+alternating", form));
+                    }
+                    tags.extend(std::iter::repeat(form).take(used));
+                }
+                "rlinecurve" => {
+                    used = maxn + 1;
+                    for s in &segs[i..i + used] {
+                        vals.extend_from_slice(s.vals());
+                    }
+                    self.clear_op(form, &vals, Tok::op(op::RLINECURVE), false);
+                    tags.extend(std::iter::repeat(form).take(used));
+                }
+                "rrcurveto" => {
+                    used = pick_n(self.rng, maxn);
+                    for s in &segs[i..i + used] {
+                        vals.extend_from_slice(s.vals());
+                    }
+                    self.clear_op(form, &vals, Tok::op(op::RRCURVETO), false);
+                    if used > 1 {
+                        self.class("op:rrcurveto+multiple");
+                    }
+                    tags.extend(std::iter::repeat(form).take(used));
+                }
+                "rcurveline" => {
+                    used = maxn + 1;
+                    for s in &segs[i..i + used] {
+                        vals.extend_from_slice(s.vals());
+                    }
+                    self.clear_op(form, &vals, Tok::op(op::RCURVELINE), false);
+                    tags.extend(std::iter::repeat(form).take(used));
+                }
+                "hhcurveto" | "vvcurveto" => {
+                    used = pick_n(self.rng, maxn);
+                    let hh = form == "hhcurveto";
+                    let (lead_i, name_lead): (usize, &'static str) = if hh { (1, "hhcurveto+dy1") } else { (0, "vvcurveto+dx1") };
+                    let c0 = segs[i].curve().unwrap_or_else(|| unreachable!());
+                    let lead = !c0[lead_i].is_zero() || self.rng.chance(1, 6);
+                    if lead {
+                        vals.push(c0[lead_i].clone());
+                    }
+                    for s in &segs[i..i + used] {
+                        let c = s.curve().unwrap_or_else(|| unreachable!());
+                        if hh {
+                            vals.extend_from_slice(&[c[0].clone(), c[2].clone(), c[3].clone(), c[4].clone()]);
+                        } else {
+                            vals.extend_from_slice(&[c[1].clone(), c[2].clone(), c[3].clone(), c[5].clone()]);
+                        }
+                    }
+                    self.clear_op(form, &vals, Tok::op(if hh { op::HHCURVETO } else { op::VVCURVETO }), false);
+                    if lead {
+                        self.class(&format!("op:{}", name_lead));
+                    }
+                    if used > 1 {
+                        self.class(&format!("op:{}+multiple", form));
+                    }
+                    tags.push(if lead { name_lead } else { form });
+                    tags.extend(std::iter::repeat(form).take(used - 1));
+                }
+                "hvcurveto" | "vhcurveto" => {
+                    used = pick_n(self.rng, maxn);
+                    let mut h = form == "hvcurveto";
+                    let mut tail = false;
+                    for (j, s) in segs[i..i + used].iter().enumerate() {
+                        let c = s.curve().unwrap_or_else(|| unreachable!());
+                        let last = j + 1 == used;
+                        if h {
+                            vals.extend_from_slice(&[c[0].clone(), c[2].clone(), c[3].clone(), c[5].clone()]);
+                        } else {
+                            vals.extend_from_slice(&[c[1].clone(), c[2].clone(), c[3].clone(), c[4].clone()]);
+                        }
+                        if last {
+                            let t = if h { &c[4] } else { &c[5] };
+                            if !t.is_zero() || self.rng.chance(1, 6) {
+                                vals.push(t.clone());
+                                tail = true;
+                            }
+                        }
+                        h = !h;
+                    }
+                    let hv = form == "hvcurveto";
+                    self.clear_op(form, &vals, Tok::op(if hv { op::HVCURVETO } else { op::VHCURVETO }), false);
+                    let tail_name: &'static str = if hv { "hvcurveto+tail" } else { "vhcurveto+tail" };
+                    if tail {
+                        self.class(&format!("op:{}", tail_name));
+                    }
+                    if used > 1 {
+                        self.class(&format!("op:{}+chain", form));
+                    }
+                    if used % 2 == 0 && tail {
+                        self.class(&format!("op:{}+even-tail", form));
+                    }
+                    tags.extend(std::iter::repeat(form).take(used - 1));
+                    tags.push(if tail { tail_name } else { form });
+                }
+                _ => {
+                    used = 2;
+                    let c0 = segs[i].curve().unwrap_or_else(|| unreachable!()).clone();
+                    let c1 = segs[i + 1].curve().unwrap_or_else(|| unreachable!()).clone();
+                    let o2 = match form {
+                        "flex" => {
+                            vals.extend_from_slice(&c0);
+                            vals.extend_from_slice(&c1);
+                            vals.push(Val::int(*self.rng.pick(&[50i64, 0, 100, 7])));
+                            op::FLEX
+                        }
+                        "hflex" => {
+                            vals.extend_from_slice(&[c0[0].clone(), c0[2].clone(), c0[3].clone(), c0[4].clone(), c1[0].clone(), c1[2].clone(), c1[4].clone()]);
+                            op::HFLEX
+                        }
+                        "hflex1" => {
+                            vals.extend_from_slice(&[
+                                c0[0].clone(),
+                                c0[1].clone(),
+                                c0[2].clone(),
+                                c0[3].clone(),
+                                c0[4].clone(),
+                                c1[0].clone(),
+                                c1[2].clone(),
+                                c1[3].clone(),
+                                c1[4].clone(),
+                            ]);
+                            op::HFLEX1
+                        }
+                        _ => {
+                            vals.extend_from_slice(&c0);
+                            vals.extend_from_slice(&c1[..4]);
+                            vals.push(if form == "flex1:dx" { c1[4].clone() } else { c1[5].clone() });
+                            op::FLEX1
+                        }
+                    };
+                    self.clear_op(form, &vals, Tok::op2(o2), false);
+                    tags.push(form);
+                    tags.push(form);
+                }
+            }
+            let _ = z;
+            i += used;
+        }
+        if self.seg_tags.len() <= ci {
+            self.seg_tags.resize(ci + 1, Vec::new());
+        }
+        self.seg_tags[ci] = tags;
+    }
+
+    fn glyph(&mut self, g: &Glyph) {
+        if self.cff2 && g.explicit_vsindex {
+            self.num(g.vsindex as i64 * ONE);
+            self.toks.push(Tok::op(op::VSINDEX));
+            self.class("op:vsindex");
+        }
+        if let Some(s) = &g.seac {
+            let vals = vec![s.adx.clone(), s.ady.clone(), Val::int(s.bchar as i64), Val::int(s.achar as i64)];
+            self.clear_op("endchar-seac", &vals, Tok::op(op::ENDCHAR), true);
+            self.class("seac");
+            return;
+        }
+        let masks = g.hints.as_ref().map_or(false, |h| h.masks);
+        if let Some(h) = &g.hints {
+            self.hints(h);
+        }
+        for (ci, c) in g.contours.iter().enumerate() {
+            self.moveto(&c.start);
+            if masks && self.rng.chance(1, 4) {
+                self.mask_op(true, &[]);
+            }
+            self.segs(ci, &c.segs, masks);
+            if self.fail.is_some() {
+                return;
+            }
+        }
+        if !self.cff2 {
+            self.clear_op("endchar", &[], Tok::op(op::ENDCHAR), true);
+        }
+    }
+}
+
+struct Encoded {
+    toks: Vec<Tok>,
+    classes: Vec<String>,
+    seg_tags: Vec<Vec<&'static str>>,
+    move_tags: Vec<&'static str>,
+    max_args: usize,
+}
+
+fn encode_glyph(rng: &mut Rng, g: &Glyph, cff2: bool, k: Option<usize>, tuples: &[Vec<f64>]) -> Result<Encoded, String> {
+    let mut e = Enc {
+        rng,
+        toks: Vec::new(),
+        limit: if cff2 { 513 } else { 48 },
+        cff2,
+        k,
+        tuples: tuples.to_vec(),
+        classes: Vec::new(),
+        width: if cff2 { None } else { g.width },
+        first_clear: true,
+        seg_tags: vec![Vec::new(); g.contours.len()],
+        move_tags: Vec::new(),
+        max_args: 0,
+        n_stems: 0,
+        implicit_vstem: false,
+        fail: None,
+    };
+    e.glyph(g);
+    if let Some(f) = e.fail {
+        return Err(f);
+    }
+    Ok(Encoded { toks: e.toks, classes: e.classes, seg_tags: e.seg_tags, move_tags: e.move_tags, max_args: e.max_args })
+}
+
+// ---------------------------------------------------------------------------------------------
+// Font assembly
+// ---------------------------------------------------------------------------------------------
+
+#[derive(Copy, Clone, Debug, PartialEq)]
+enum Flavour {
+    Name,
+    Cid,
+    Cff2,
+}
+
+impl Flavour {
+    fn name(self) -> &'static str {
+        match self {
+            Flavour::Name => "name",
+            Flavour::Cid => "cid",
+            Flavour::Cff2 => "cff2",
+        }
+    }
+}
+
+/// Overrides for directed (exhaustive) cases.
+#[derive(Clone, Debug, Default)]
+struct Directed {
+    flavour: Option<Flavour>,
+    /// (count, slot) of the local / global subroutine INDEX; the glyph calls exactly that slot
+    local: Option<(usize, usize)>,
+    global: Option<(usize, usize)>,
+}
+
+fn gen_axis(rng: &mut Rng) -> (i16, i16, i16) {
+    let sorted3 = |rng: &mut Rng| -> (i16, i16, i16) {
+        let mut v = [rng.range(0, 16384), rng.range(0, 16384), rng.range(0, 16384)];
+        v.sort();
+        if v[1] == 0 {
+            v[1] = 1;
+            v[2] = v[2].max(1);
+        }
+        (v[0] as i16, v[1] as i16, v[2] as i16)
+    };
+    match rng.below(9) {
+        0 | 1 => (0, 16384, 16384),
+        2 => (-16384, -16384, 0),
+        3 => (0, rng.range(1, 16383) as i16, 16384),
+        4 => (-16384, -(rng.range(1, 16383) as i16), 0),
+        5 => (0, 0, 0),
+        6 => sorted3(rng),
+        7 => {
+            let (s, p, e) = sorted3(rng);
+            (-e, -p, -s)
+        }
+        _ => (0, 8192, 16384),
+    }
+}
+
+fn gen_vstore(rng: &mut Rng) -> (cffw::VStore, Vec<Vec<i16>>) {
+    let axis_count = 1 + rng.below(2);
+    let n_regions = 1 + rng.below(3);
+    let regions: Vec<cffw::VarRegion> =
+        (0..n_regions).map(|_| cffw::VarRegion { axes: (0..axis_count).map(|_| gen_axis(rng)).collect() }).collect();
+    let n_data = 1 + rng.below(2);
+    let mut data = Vec::new();
+    for _ in 0..n_data {
+        let mut idx: Vec<u16> = (0..n_regions as u16).collect();
+        rng.shuffle(&mut idx);
+        let keep = if rng.chance(1, 40) { 0 } else { 1 + rng.below(n_regions) };
+        idx.truncate(keep);
+        data.push(cffw::VarData { region_indexes: idx });
+    }
+    let n_tuples = 1 + rng.below(2);
+    let mut tuples = Vec::new();
+    for _ in 0..n_tuples {
+        let t: Vec<i16> = (0..axis_count)
+            .map(|a| {
+                let r = &regions[rng.below(n_regions)].axes[a];
+                match rng.below(10) {
+                    0 => 0,
+                    1 => 16384,
+                    2 => -16384,
+                    3 | 4 => r.1,
+                    5 => r.0,
+                    6 => r.2,
+                    7 => ((r.0 as i32 + r.1 as i32) / 2) as i16,
+                    8 => ((r.1 as i32 + r.2 as i32) / 2) as i16,
+                    _ => rng.range(-16384, 16384) as i16,
+                }
+            })
+            .collect();
+        tuples.push(t);
+    }
+    (cffw::VStore { axis_count: axis_count as u16, regions, data }, tuples)
+}
+
+struct Slot {
+    glyph: Option<Glyph>,
+    fd: usize,
+    enc: Option<Encoded>,
+    main: Vec<Tok>,
+    stats: cffw::FactorStats,
+    /// scalars at each tuple for this glyph's vsindex (one empty vec when not variable)
+    tuples: Vec<Vec<f64>>,
+    k: Option<usize>,
+}
+
+struct Built {
+    flavour: Flavour,
+    bytes: Vec<u8>,
+    slots: Vec<Slot>,
+    locals: Vec<SubrSpace>,
+    global: SubrSpace,
+    vstore: Option<cffw::VStore>,
+    tuples_raw: Vec<Vec<i16>>,
+    iso_adobe: bool,
+    fd_vsindex: Vec<usize>,
+    classes: Vec<String>,
+}
+
+fn pick_subr_count(rng: &mut Rng, quick: bool) -> usize {
+    match rng.below(100) {
+        0..=14 => 0,
+        15..=69 => 1 + rng.below(30),
+        70..=84 => 30 + rng.below(300),
+        85..=91 => 1236 + rng.below(8),
+        92 | 93 => {
+            if quick && rng.bool() {
+                1238 + rng.below(4)
+            } else {
+                33896 + rng.below(8)
+            }
+        }
+        94 => 33900 + rng.below(31000),
+        _ => 100 + rng.below(1100),
+    }
+}
+
+/// Token level sanity walk (no byte decoding): stack limit, mask sizes, subroutine ranges and
+/// nesting, nothing after endchar.
+struct Walk<'a> {
+    local: &'a SubrSpace,
+    global: &'a SubrSpace,
+    limit: usize,
+    cff2: bool,
+    depth: usize,
+    stems: usize,
+    first_clear: bool,
+    ended: bool,
+    max_level: usize,
+    calls: usize,
+    /// hash of the executed non-call tokens, in execution order
+    exec: u64,
+}
+
+fn tok_seq_hash(h: u64, t: &Tok) -> u64 {
+    mix(h, hash_bytes(&t.bytes))
+}
+
+impl<'a> Walk<'a> {
+    fn run(&mut self, toks: &[Tok], level: usize) -> Result<(), String> {
+        self.max_level = self.max_level.max(level);
+        for (i, t) in toks.iter().enumerate() {
+            if self.ended {
+                return Err("token after endchar".to_string());
+            }
+            if !matches!(t.effect, Effect::Call { .. } | Effect::None) {
+                self.exec = tok_seq_hash(self.exec, t);
+            }
+            match &t.effect {
+                Effect::Push => {
+                    self.depth += 1;
+                    if self.depth > self.limit {
+                        return Err(format!("stack depth {} > {}", self.depth, self.limit));
+                    }
+                }
+                Effect::Clear => {
+                    self.depth = 0;
+                }
+                Effect::Stems | Effect::Mask { .. } => {
+                    let mut n = self.depth;
+                    if n % 2 == 1 {
+                        if self.cff2 || !self.first_clear {
+                            return Err("odd stem operand count".to_string());
+                        }
+                        n -= 1;
+                    }
+                    self.first_clear = false;
+                    self.stems += n / 2;
+                    if let Effect::Mask { mask_len } = &t.effect {
+                        if *mask_len != (self.stems + 7) / 8 {
+                            return Err(format!("mask of {} bytes for {} stems", mask_len, self.stems));
+                        }
+                    }
+                    self.depth = 0;
+                }
+                Effect::Blend { n, k } => {
+                    let need = n * (k + 1) + 1;
+                    if !self.cff2 || self.depth < need {
+                        return Err("blend underflow".to_string());
+                    }
+                    self.depth = self.depth - need + n;
+                }
+                Effect::Pop1 => {
+                    if self.depth < 1 {
+                        return Err("vsindex underflow".to_string());
+                    }
+                    self.depth -= 1;
+                }
+                Effect::None => {
+                    if i + 1 != toks.len() || level == 0 || self.cff2 {
+                        return Err("misplaced return".to_string());
+                    }
+                }
+                Effect::End => {
+                    if self.cff2 {
+                        return Err("endchar in CFF2".to_string());
+                    }
+                    self.ended = true;
+                    self.depth = 0;
+                }
+                Effect::Call { global, index } => {
+                    if self.depth + 1 > self.limit {
+                        return Err("no stack room for the subroutine number".to_string());
+                    }
+                    let space = if *global { self.global } else { self.local };
+                    if *index >= space.count {
+                        return Err(format!("subroutine {} of {}", index, space.count));
+                    }
+                    let operand = *index as i64 - cffw::subr_bias(space.count);
+                    if !(-32768..=32767).contains(&operand) {
+                        return Err("subroutine operand out of range".to_string());
+                    }
+                    if level + 1 > 10 {
+                        return Err("nesting > 10".to_string());
+                    }
+                    self.calls += 1;
+                    let body = space.used.get(index).ok_or("call of an unused slot")?;
+                    self.run(body, level + 1)?;
+                }
+            }
+            if matches!(t.effect, Effect::Clear) && t.bytes.len() == 1 && matches!(t.bytes[0], op::RMOVETO | op::HMOVETO | op::VMOVETO) {
+                self.first_clear = false;
+            }
+        }
+        Ok(())
+    }
+}
+
+fn dict_blend_blue_values(k: usize, rng: &mut Rng) -> Vec<u8> {
+    // BlueValues with blended operands: n*(k+1) operands, n, blend, then the BlueValues operator
+    let mut d = Vec::new();
+    let n = 4;
+    for v in [-12, 12, 468, 12] {
+        cffw::dict_int(&mut d, v);
+    }
+    for _ in 0..n * k {
+        cffw::dict_int(&mut d, rng.range(-5, 5) as i32);
+    }
+    cffw::dict_int(&mut d, n as i32);
+    cffw::dict_op(&mut d, cffw::dop::BLEND);
+    cffw::dict_op(&mut d, cffw::dop::BLUE_VALUES);
+    d
+}
+
+fn build_font(cx: &mut Ctx, rng: &mut Rng, dir: Option<&Directed>) -> Result<Built, String> {
+    let quick = cx.quick();
+    let flavour = dir.and_then(|d| d.flavour).unwrap_or_else(|| match rng.below(20) {
+        0..=7 => Flavour::Name,
+        8..=12 => Flavour::Cid,
+        _ => Flavour::Cff2,
+    });
+    let cff2 = flavour == Flavour::Cff2;
+    let limit = if cff2 { 513 } else { 48 };
+    let mut classes: Vec<String> = vec![format!("flavour:{}", flavour.name())];
+
+    // variation data
+    let (vstore, tuples_raw) = if cff2 && dir.is_none() && rng.chance(7, 10) {
+        let (v, t) = gen_vstore(rng);
+        (Some(v), t)
+    } else {
+        (None, Vec::new())
+    };
+    if let Some(v) = &vstore {
+        classes.push(format!("vstore:axes={}", v.axis_count));
+        classes.push(format!("vstore:regions={}", v.regions.len()));
+    }
+
+    // Font DICTs
+    let n_fd = match flavour {
+        Flavour::Name => 1,
+        Flavour::Cid => 1 + rng.below(4),
+        Flavour::Cff2 => 1 + rng.small(2),
+    };
+    let fd_vsindex_opt: Vec<Option<u16>> = (0..n_fd)
+        .map(|_| match &vstore {
+            Some(v) if rng.bool() => Some(rng.below(v.data.len()) as u16),
+            _ => None,
+        })
+        .collect();
+    let fd_vsindex: Vec<usize> = fd_vsindex_opt.iter().map(|v| v.unwrap_or(0) as usize).collect();
+
+    // glyph list
+    let n_real = if dir.is_some() { 1 } else { 1 + rng.below(5) };
+    let seac = flavour == Flavour::Name && dir.is_none() && rng.chance(1, 4);
+    let mut iso_adobe = flavour == Flavour::Name && rng.bool();
+    let mut n_glyphs = n_real + rng.below(4);
+    let mut seac_codes: Option<(u8, u8)> = None;
+    if seac {
+        let b = match rng.below(10) {
+            0..=6 => rng.range(33, 126) as u8,
+            7 => 245,
+            8 => *rng.pick(&[225u8, 241, 232, 233, 234, 248, 249, 250, 251]),
+            _ => 32,
+        };
+        let a = match rng.below(8) {
+            0..=5 => *rng.pick(&[193u8, 194, 195, 196, 197, 198, 199, 200, 202, 203, 205, 206, 207]),
+            6 => rng.range(33, 126) as u8,
+            _ => b,
+        };
+        seac_codes = Some((b, a));
+        n_glyphs += 3;
+    }
+    if iso_adobe {
+        if let Some((b, a)) = seac_codes {
+            let need = cffw::standard_encoding_sid(b).max(cffw::standard_encoding_sid(a)) as usize + 1;
+            n_glyphs = n_glyphs.max(need + rng.below(3));
+        }
+        if n_glyphs > cffw::ISO_ADOBE_LAST_SID as usize + 1 {
+            iso_adobe = false;
+        }
+    }
+    let n_glyphs = n_glyphs.max(if seac { 3 } else { 1 });
+
+    // positions of the real glyphs (and of the seac triple)
+    let mut order: Vec<usize> = (0..n_glyphs).collect();
+    rng.shuffle(&mut order);
+    let mut real_pos: Vec<usize> = Vec::new();
+    let mut seac_pos: Option<(usize, usize, usize)> = None; // composite, base, accent
+    let mut charset_ids: Vec<u16> = (0..n_glyphs).map(|g| cffw::N_STD_STRINGS + g as u16).collect();
+    if let Some((b, a)) = seac_codes {
+        let (sb, sa) = (cffw::standard_encoding_sid(b) as usize, cffw::standard_encoding_sid(a) as usize);
+        if iso_adobe {
+            let comp = (0..n_glyphs).filter(|g| *g != sb && *g != sa).nth(0).ok_or("no room for seac composite")?;
+            let others: Vec<usize> = (0..n_glyphs).filter(|g| *g != sb && *g != sa && *g != comp).collect();
+            let comp = if !others.is_empty() && rng.bool() { others[rng.below(others.len())] } else { comp };
+            seac_pos = Some((comp, sb, sa));
+        } else {
+            // custom charset: components anywhere but glyph 0 (.notdef has no charset entry)
+            let free: Vec<usize> = order.iter().copied().filter(|g| *g != 0).collect();
+            if free.len() < 2 {
+                return Err("seac needs two named glyphs".to_string());
+            }
+            let pb = free[0];
+            let pa = if sb == sa { pb } else { free[1] };
+            let comp = order.iter().copied().find(|g| *g != pb && *g != pa).ok_or("no room for seac composite")?;
+            charset_ids[pb] = sb as u16;
+            charset_ids[pa] = sa as u16;
+            seac_pos = Some((comp, pb, pa));
+        }
+    }
+    for &g in &order {
+        if real_pos.len() >= n_real {
+            break;
+        }
+        if seac_pos.map_or(true, |(c, _, _)| c != g) {
+            real_pos.push(g);
+        }
+    }
+    if let Some((_, b, a)) = seac_pos {
+        for p in [b, a] {
+            if !real_pos.contains(&p) {
+                real_pos.push(p);
+            }
+        }
+    }
+
+    let fd_of: Vec<usize> = (0..n_glyphs).map(|_| rng.below(n_fd)).collect();
+    let font_numclass = match rng.below(10) {
+        0..=5 => NumClass::Int,
+        6 | 7 => NumClass::Fixed,
+        _ => NumClass::Mixed,
+    };
+
+    let mut slots: Vec<Slot> = Vec::with_capacity(n_glyphs);
+    for g in 0..n_glyphs {
+        let fd = fd_of[g];
+        // variation context of the glyph
+        let (vs, explicit) = match &vstore {
+            Some(v) => {
+                if rng.bool() {
+                    (fd_vsindex[fd], rng.chance(1, 4))
+                } else {
+                    (rng.below(v.data.len()), true)
+                }
+            }
+            None => (0, false),
+        };
+        let k = vstore.as_ref().map(|v| v.data[vs].region_indexes.len());
+        let tuples: Vec<Vec<f64>> = match &vstore {
+            Some(v) => tuples_raw.iter().map(|t| v.scalars(vs, t)).collect(),
+            None => vec![Vec::new()],
+        };
+        let mut slot = Slot { glyph: None, fd, enc: None, main: Vec::new(), stats: Default::default(), tuples: tuples.clone(), k };
+        if real_pos.contains(&g) {
+            let numclass = if rng.chance(3, 4) { font_numclass } else { NumClass::Int };
+            let small = numclass != NumClass::Int || k.map_or(false, |k| k > 0);
+            let gg = GlyphGen {
+                numclass,
+                k: k.unwrap_or(0),
+                delta_pct: if k.unwrap_or(0) == 0 { 0 } else { *rng.pick(&[0u32, 15, 40, 100]) },
+                lim: if small { 2000 * ONE } else { 30000 * ONE },
+                shrink: 1,
+                cff2,
+                tuples,
+            };
+            let mut glyph = gen_glyph(rng, &gg, !cff2);
+            glyph.vsindex = vs;
+            glyph.explicit_vsindex = explicit;
+            slot.glyph = Some(glyph);
+        } else if seac_pos.map_or(false, |(c, _, _)| c == g) {
+            let (_, b, a) = seac_pos.unwrap_or((0, 0, 0));
+            let (bc, ac) = seac_codes.unwrap_or((0, 0));
+            let adx = if rng.chance(1, 5) { Val { d: rng.range(-300 * ONE, 300 * ONE), deltas: Vec::new() } } else { Val::int(rng.range(-600, 600)) };
+            let glyph = Glyph {
+                seac: Some(Seac { adx, ady: Val::int(rng.range(-600, 600)), bchar: bc, achar: ac, base: b, accent: a }),
+                width: if rng.bool() { Some(gen_int(rng)) } else { None },
+                ..Default::default()
+            };
+            slot.glyph = Some(glyph);
+        }
+        slots.push(slot);
+    }
+
+    // encode
+    for s in slots.iter_mut() {
+        if let Some(g) = &s.glyph {
+            let e = encode_glyph(rng, g, cff2, s.k, &s.tuples)?;
+            s.enc = Some(e);
+        }
+    }
+
+    // subroutine spaces
+    let use_subrs = dir.is_some() || rng.chance(13, 20);
+    let mut global = match dir.and_then(|d| d.global) {
+        Some((count, slot)) => SubrSpace::with_candidates(count, vec![slot]),
+        None if use_subrs && dir.is_none() => SubrSpace::new(pick_subr_count(rng, quick), 28, rng),
+        _ => SubrSpace::empty(),
+    };
+    let mut locals: Vec<SubrSpace> = Vec::new();
+    let shared_layout = n_fd > 1 && rng.bool();
+    let shared_count = pick_subr_count(rng, quick);
+    let shared_rng = rng.fork();
+    for _ in 0..n_fd {
+        let sp = match dir.and_then(|d| d.local) {
+            Some((count, slot)) => SubrSpace::with_candidates(count, vec![slot]),
+            None if use_subrs && dir.is_none() => {
+                if shared_layout {
+                    // same size and same candidate slots in every Font DICT: a reader that picks the
+                    // wrong Font DICT finds a *different* subroutine at the same index
+                    SubrSpace::new(shared_count, 28, &mut shared_rng.clone())
+                } else {
+                    SubrSpace::new(pick_subr_count(rng, quick), 28, rng)
+                }
+            }
+            _ => SubrSpace::empty(),
+        };
+        locals.push(sp);
+    }
+    if shared_layout && use_subrs {
+        classes.push("cid:same-slots-in-every-fd".to_string());
+    }
+
+    // factoring
+    let has_seac = seac_pos.is_some();
+    for s in slots.iter_mut() {
+        let enc = match &s.enc {
+            Some(e) => e,
+            None => continue,
+        };
+        let depths = cffw::flat_depths(&enc.toks).ok_or("flat depth underflow")?;
+        if depths.iter().any(|&d| d > limit) {
+            return Err("flat program exceeds the stack limit".to_string());
+        }
+        let cfg = cffw::FactorCfg {
+            stack_limit: limit,
+            // whether a seac component counts as a nesting level is not settled by TN 5177: keep
+            // composite depth + 1 + component depth <= 10 so that either reading accepts the font
+            max_depth: if has_seac { 4 } else { 10 },
+            emit_return: !cff2,
+            deep: dir.is_none() && rng.chance(1, 10),
+            cut_pct: if dir.is_some() { 100 } else { *rng.pick(&[25u32, 50, 80]) },
+        };
+        let mut stats = cffw::FactorStats::default();
+        let local = &mut locals[s.fd];
+        if let Some(d) = dir {
+            // directed: the whole program goes into the requested slot(s)
+            let mut body = enc.toks.clone();
+            let mut main: Vec<Tok> = Vec::new();
+            for (is_global, want) in [(false, d.local), (true, d.global)] {
+                if want.is_none() {
+                    continue;
+                }
+                let space = if is_global { &mut global } else { &mut *local };
+                let count = space.count;
+                // a CFF program ends with endchar (possibly nested): nothing may follow the call,
+                // so no `return` is appended; CFF2 subroutines have no `return` at all
+                let idx = space.alloc(body).ok_or("directed slot")?;
+                let (t, enc) = cffw::call_tok(idx, count, is_global, rng).ok_or("directed call")?;
+                stats.operand_encs.push(enc);
+                if is_global {
+                    stats.global_calls += 1;
+                } else {
+                    stats.local_calls += 1;
+                }
+                stats.max_depth += 1;
+                main = vec![t];
+                body = main.clone();
+            }
+            s.main = main;
+        } else {
+            s.main = cffw::factor(&enc.toks, &depths, local, &mut global, &cfg, rng, &mut stats);
+        }
+        s.stats = stats;
+    }
+
+    // sanity walk
+    for s in slots.iter() {
+        if s.enc.is_none() {
+            continue;
+        }
+        let mut w = Walk {
+            local: &locals[s.fd],
+            global: &global,
+            limit,
+            cff2,
+            depth: 0,
+            stems: 0,
+            first_clear: true,
+            ended: false,
+            max_level: 0,
+            calls: 0,
+            exec: 0,
+        };
+        w.run(&s.main, 0)?;
+        let flat_hash = s.enc.as_ref().map_or(0, |e| e.toks.iter().fold(0u64, tok_seq_hash));
+        if w.exec != flat_hash {
+            return Err("factored program does not execute the flat token sequence".to_string());
+        }
+        if !cff2 && !w.ended {
+            return Err("charstring without endchar".to_string());
+        }
+        if w.depth != 0 {
+            return Err("operands left on the stack".to_string());
+        }
+    }
+
+    // serialise
+    let filler_glyph = |rng: &mut Rng| -> Vec<u8> {
+        if cff2 {
+            Vec::new()
+        } else if rng.bool() {
+            vec![op::ENDCHAR]
+        } else {
+            let mut b = Vec::new();
+            cffw::cs_int_short(&mut b, rng.range(-500, 500));
+            b.push(op::ENDCHAR);
+            b
+        }
+    };
+    let glyph_bytes: Vec<Vec<u8>> =
+        slots.iter().map(|s| if s.enc.is_some() { cffw::toks_bytes(&s.main) } else { filler_glyph(rng) }).collect();
+    let poison = rng.bool();
+    let filler = move |fd: usize| {
+        move |slot: usize| -> Vec<u8> {
+            if poison {
+                // never called by a well-formed program; draws something recognisable if it is
+                let mut b = Vec::new();
+                cffw::cs_int_short(&mut b, 7 + fd as i64);
+                cffw::cs_int_short(&mut b, (slot % 50) as i64 + 1);
+                b.push(op::RLINETO);
+                if !cff2 {
+                    b.push(op::RETURN);
+                }
+                b
+            } else if cff2 {
+                Vec::new()
+            } else {
+                vec![op::RETURN]
+            }
+        }
+    };
+    let global_vecs = global.to_vecs(&filler(9));
+    let local_vecs: Vec<Option<Vec<Vec<u8>>>> = locals
+        .iter()
+        .enumerate()
+        .map(|(fd, l)| if l.count == 0 && rng.bool() { None } else { Some(l.to_vecs(&filler(fd))) })
+        .collect();
+    let off_size = *rng.pick(&[None, None, Some(1u8), Some(2), Some(3), Some(4)]);
+    let fdselect_format = if rng.bool() { 0 } else { 3 };
+    let fd_bytes: Vec<u8> = fd_of.iter().map(|&f| f as u8).collect();
+    let bytes = match flavour {
+        Flavour::Name => {
+            let charset = if iso_adobe {
+                classes.push("charset:isoadobe".to_string());
+                cffw::Charset::IsoAdobe { explicit_op: rng.bool() }
+            } else {
+                let format = rng.below(3) as u8;
+                classes.push(format!("charset:format{}", format));
+                cffw::Charset::Custom { format, ids: charset_ids[1..].to_vec() }
+            };
+            cffw::CffFont {
+                name: b"VerifC18".to_vec(),
+                glyphs: glyph_bytes,
+                global_subrs: global_vecs,
+                kind: cffw::CffKind::NameKeyed {
+                    private: cffw::Private {
+                        local_subrs: local_vecs[0].clone(),
+                        default_width_x: if rng.bool() { Some(rng.range(0, 1000) as i32) } else { None },
+                        nominal_width_x: if rng.bool() { Some(rng.range(0, 1000) as i32) } else { None },
+                        extra: Vec::new(),
+                    },
+                    charset,
+                },
+                strings: (0..n_glyphs).map(|g| format!("g{}", g).into_bytes()).collect(),
+                off_size,
+                with_bbox: rng.bool(),
+            }
+            .build()
+        }
+        Flavour::Cid => {
+            classes.push(format!("fdselect:format{}", fdselect_format));
+            classes.push(format!("cid:fds={}", n_fd));
+            cffw::CffFont {
+                name: b"VerifC18CID".to_vec(),
+                glyphs: glyph_bytes,
+                global_subrs: global_vecs,
+                kind: cffw::CffKind::CidKeyed {
+                    fds: local_vecs
+                        .iter()
+                        .map(|l| cffw::Private {
+                            local_subrs: l.clone(),
+                            default_width_x: if rng.bool() { Some(rng.range(0, 1000) as i32) } else { None },
+                            nominal_width_x: if rng.bool() { Some(rng.range(0, 1000) as i32) } else { None },
+                            extra: Vec::new(),
+                        })
+                        .collect(),
+                    fd_select: fd_bytes,
+                    fdselect_format,
+                    charset_format: *rng.pick(&[0u8, 1, 2, 2]),
+                },
+                strings: Vec::new(),
+                off_size,
+                with_bbox: false,
+            }
+            .build()
+        }
+        Flavour::Cff2 => {
+            let with_fdselect = n_fd > 1;
+            if with_fdselect {
+                classes.push(format!("fdselect:format{}", fdselect_format));
+            }
+            classes.push(format!("cff2:fds={}", n_fd));
+            let fds: Vec<cffw::Cff2Private> = (0..n_fd)
+                .map(|fd| {
+                    let k = vstore.as_ref().map(|v| v.data[fd_vsindex[fd]].region_indexes.len());
+                    let extra = match k {
+                        Some(k) if rng.chance(3, 10) => {
+                            classes.push("cff2:private-dict-blend".to_string());
+                            dict_blend_blue_values(k, rng)
+                        }
+                        _ => Vec::new(),
+                    };
+                    cffw::Cff2Private { local_subrs: local_vecs[fd].clone(), vsindex: fd_vsindex_opt[fd], extra }
+                })
+                .collect();
+            cffw::Cff2Font {
+                glyphs: glyph_bytes,
+                global_subrs: global_vecs,
+                fds,
+                fd_select: if with_fdselect { Some((fdselect_format, fd_bytes)) } else { None },
+                vstore: vstore.clone(),
+                off_size,
+                with_font_matrix: rng.bool(),
+            }
+            .build()
+        }
+    };
+    Ok(Built { flavour, bytes, slots, locals, global, vstore, tuples_raw, iso_adobe, fd_vsindex, classes })
+}
+
+// ---------------------------------------------------------------------------------------------
+// Oracle
+// ---------------------------------------------------------------------------------------------
+
+fn hex_limited(b: &[u8], max: usize) -> J {
+    if b.len() <= max {
+        J::hex(b)
+    } else {
+        J::s(format!("<{} bytes, first {}: {}>", b.len(), max, J::hex(&b[..max]).to_string()))
+    }
+}
+
+fn show_glyph(g: &Glyph) -> J {
+    let mut cs = Vec::new();
+    for c in &g.contours {
+        let mut s = format!("move({}, {})", c.start[0].show(), c.start[1].show());
+        for seg in c.segs.iter().take(40) {
+            let v: Vec<String> = seg.vals().iter().map(|v| v.show()).collect();
+            s.push_str(&format!(" {}({})", if seg.line().is_some() { "line" } else { "curve" }, v.join(" ")));
+        }
+        if c.segs.len() > 40 {
+            s.push_str(&format!(" ... {} segments", c.segs.len()));
+        }
+        cs.push(J::s(s));
+    }
+    let mut o = vec![("contours", J::A(cs)), ("width", g.width.map_or(J::Null, J::I))];
+    if let Some(h) = &g.hints {
+        o.push(("hstems", J::U(h.hstems.len() as u64)));
+        o.push(("vstems", J::U(h.vstems.len() as u64)));
+        o.push(("masks", J::Bool(h.masks)));
+    }
+    if let Some(s) = &g.seac {
+        o.push(("seac", J::s(format!("adx={} ady={} bchar={} achar={} base_gid={} accent_gid={}", s.adx.show(), s.ady.show(), s.bchar, s.achar, s.base, s.accent))));
+    }
+    J::obj(o)
+}
+
+fn collect_subrs(b: &Built, toks: &[Tok], fd: usize, out: &mut Vec<J>, seen: &mut Vec<(bool, usize)>) {
+    for t in toks {
+        if let Effect::Call { global, index } = &t.effect {
+            if seen.contains(&(*global, *index)) || out.len() > 24 {
+                continue;
+            }
+            seen.push((*global, *index));
+            let space = if *global { &b.global } else { &b.locals[fd] };
+            if let Some(body) = space.used.get(index) {
+                out.push(J::obj(vec![
+                    ("kind", J::s(if *global { "global" } else { "local" })),
+                    ("index", J::U(*index as u64)),
+                    ("count", J::U(space.count as u64)),
+                    ("bias", J::I(cffw::subr_bias(space.count))),
+                    ("bytes", hex_limited(&cffw::toks_bytes(body), 300)),
+                ]));
+                collect_subrs(b, body, fd, out, seen);
+            }
+        }
+    }
+}
+
+/// Run `f`, turning a panic into Err(PanicInfo) (harness panics are re-raised).
+fn catch<R>(f: impl FnOnce() -> R) -> Result<R, PanicInfo> {
+    match std::panic::catch_unwind(std::panic::AssertUnwindSafe(f)) {
+        Ok(r) => Ok(r),
+        Err(payload) => {
+            let p = take_last_panic().unwrap_or_default();
+            if is_harness_panic(&p) {
+                std::panic::resume_unwind(payload);
+            }
+            Err(p)
+        }
+    }
+}
+
+struct Failure {
+    rule: &'static str,
+    sig: String,
+    what: String,
+    expected: Vec<String>,
+    observed: Vec<String>,
+    panic: Option<PanicInfo>,
+}
+
+impl C18 {
+    fn report(&self, cx: &mut Ctx, b: &Built, gid: usize, tuple: Option<&Vec<i16>>, f: Failure) {
+        let s = &b.slots[gid];
+        let mut subrs = Vec::new();
+        collect_subrs(b, &s.main, s.fd, &mut subrs, &mut Vec::new());
+        let mut o = vec![
+            ("what", J::s(f.what)),
+            ("flavour", J::s(b.flavour.name())),
+            ("glyph_id", J::U(gid as u64)),
+            ("fd", J::U(s.fd as u64)),
+            ("charstring", hex_limited(&cffw::toks_bytes(&s.main), 600)),
+            ("subrs", J::A(subrs)),
+            ("glyph", s.glyph.as_ref().map_or(J::Null, show_glyph)),
+            ("expected", J::A(f.expected.iter().take(60).map(|x| J::s(x.clone())).collect())),
+            ("observed", J::A(f.observed.iter().take(60).map(|x| J::s(x.clone())).collect())),
+            ("encoder_classes", J::A(s.enc.as_ref().map_or(Vec::new(), |e| e.classes.iter().map(|c| J::s(c.clone())).collect()))),
+            ("font", hex_limited(&b.bytes, 1500)),
+        ];
+        if let Some(t) = tuple {
+            o.push(("tuple_f2dot14", J::A(t.iter().map(|&v| J::I(v as i64)).collect())));
+        }
+        if let Some(v) = &b.vstore {
+            o.push((
+                "vstore",
+                J::s(format!(
+                    "regions={:?} data={:?} glyph_vsindex={} scalars={:?}",
+                    v.regions.iter().map(|r| r.axes.clone()).collect::<Vec<_>>(),
+                    v.data.iter().map(|d| d.region_indexes.clone()).collect::<Vec<_>>(),
+                    s.glyph.as_ref().map_or(0, |g| g.vsindex),
+                    s.tuples
+                )),
+            ));
+        }
+        if let Some(g) = &s.glyph {
+            if let Some(sc) = &g.seac {
+                for (name, p) in [("seac_base", sc.base), ("seac_accent", sc.accent)] {
+                    o.push((name, J::obj(vec![
+                        ("charstring", hex_limited(&cffw::toks_bytes(&b.slots[p].main), 300)),
+                        ("glyph", b.slots[p].glyph.as_ref().map_or(J::Null, show_glyph)),
+                    ])));
+                }
+            }
+        }
+        match f.panic {
+            Some(p) => cx.panic_violation(&f.sig, &p, J::obj(o)),
+            None => cx.violation(f.rule, &f.sig, J::obj(o)),
+        }
+    }
+
+    fn report_panic(&self, cx: &mut Ctx, b: &Built, gid: usize, ti: usize, tuple: Option<&Vec<i16>>, what: &str, p: PanicInfo) {
+        let (exp, _) = self.expected_for(b, gid, ti);
+        let sig = self.sig(b, gid, "panic", "");
+        self.report(cx, b, gid, tuple, Failure {
+            rule: "panic",
+            sig: format!("{} [{}]", what, sig),
+            what: format!("panic while visiting a well-formed glyph program: {}", p.message),
+            expected: exp.iter().map(show_ecmd).collect(),
+            observed: Vec::new(),
+            panic: Some(p),
+        });
+    }
+
+    /// Narrow, stable defect-class signature from the features of the failing glyph.
+    fn sig(&self, b: &Built, gid: usize, kind: &str, tag: &str) -> String {
+        let s = &b.slots[gid];
+        let g = match &s.glyph {
+            Some(g) => g,
+            None => return format!("{}:{}", kind, tag),
+        };
+        if let Some(sc) = &g.seac {
+            let comp = |p: usize| b.slots[p].glyph.as_ref();
+            let has_w = |p: usize| comp(p).map_or(false, |g| g.width.is_some());
+            // width taken by a moveto / endchar of the component (a stem operator tolerates an extra operand)
+            let w_on_move = |p: usize| {
+                b.slots[p].enc.as_ref().map_or(false, |e| {
+                    e.classes.iter().any(|c| matches!(c.as_str(), "width-prefix:rmoveto" | "width-prefix:hmoveto" | "width-prefix:vmoveto" | "width-prefix:endchar"))
+                })
+            };
+            let stems = |p: usize| comp(p).and_then(|g| g.hints.as_ref()).map_or(0, |h| h.hstems.len() + h.vstems.len());
+            let masks = |p: usize| comp(p).and_then(|g| g.hints.as_ref()).map_or(false, |h| h.masks);
+            if b.iso_adobe && (sc.bchar > 228 || sc.achar > 228) && kind.contains("InvalidSeacCode") {
+                return "seac:isoadobe-code>228".to_string();
+            }
+            if g.width.is_none() {
+                return "seac:composite-without-width".to_string();
+            }
+            if w_on_move(sc.base) || (w_on_move(sc.accent) && sc.accent != sc.base) || (has_w(sc.base) && sc.accent == sc.base) {
+                return "seac:component-width".to_string();
+            }
+            if stems(sc.base) > 0 && masks(sc.accent) && (stems(sc.base) + stems(sc.accent) + 7) / 8 != (stems(sc.accent) + 7) / 8 {
+                return "seac:component-hintmask".to_string();
+            }
+            return format!("seac:{}:{}", kind, tag);
+        }
+        if b.flavour == Flavour::Cff2 {
+            if s.fd != 0 && (s.stats.local_calls > 0 || (!g.explicit_vsindex && b.fd_vsindex[s.fd] != b.fd_vsindex[0])) {
+                return format!("cff2-nonzero-fd:{}", kind);
+            }
+            if s.enc.as_ref().map_or(false, |e| e.max_args > 48) && kind.starts_with("err") {
+                return format!("cff2-args>48:{}", kind);
+            }
+            if g.contours.is_empty() && kind == "path" {
+                return "cff2-empty-glyph".to_string();
+            }
+        }
+        if b.flavour == Flavour::Cid && s.stats.local_calls > 0 && s.fd != 0 {
+            return format!("cid-local-subr-fd:{}:{}", kind, tag);
+        }
+        let mut sig = format!("{}:{}", kind, tag);
+        if kind.starts_with("err") {
+            if s.stats.local_calls + s.stats.global_calls > 0 {
+                let sp = if s.stats.local_calls > 0 { &b.locals[s.fd] } else { &b.global };
+                sig.push_str(&format!(":subrs:bias-{}", cffw::subr_bias(sp.count)));
+            } else if g.hints.as_ref().map_or(false, |h| h.masks) {
+                sig.push_str(":hintmask");
+            }
+        }
+        sig
+    }
+
+    fn expected_for(&self, b: &Built, gid: usize, ti: usize) -> (Vec<ECmd>, Vec<(usize, Src)>) {
+        let s = &b.slots[gid];
+        let empty: Vec<f64> = Vec::new();
+        let g = match &s.glyph {
+            Some(g) => g,
+            None => return (Vec::new(), Vec::new()),
+        };
+        if let Some(sc) = &g.seac {
+            let mut cmds = Vec::new();
+            let mut srcs = Vec::new();
+            for (p, origin) in [(sc.base, (0.0, 0.0)), (sc.accent, (sc.adx.eval(&empty), sc.ady.eval(&empty)))] {
+                if let Some(cg) = &b.slots[p].glyph {
+                    let (c, s2) = expected_path(cg, &empty, origin);
+                    cmds.extend(c);
+                    srcs.extend(s2.into_iter().map(|x| (p, x)));
+                }
+            }
+            return (cmds, srcs);
+        }
+        let sc = s.tuples.get(ti).unwrap_or(&empty);
+        let (c, s2) = expected_path(g, sc, (0.0, 0.0));
+        (c, s2.into_iter().map(|x| (gid, x)).collect())
+    }
+
+    fn judge(
+        &self,
+        cx: &mut Ctx,
+        b: &Built,
+        gid: usize,
+        ti: usize,
+        tuple: Option<&Vec<i16>>,
+        result: Result<(), String>,
+        obs: &[OCmd],
+    ) -> bool {
+        let s = &b.slots[gid];
+        let g = match &s.glyph {
+            Some(g) => g,
+            None => return true,
+        };
+        let (exp, srcs) = self.expected_for(b, gid, ti);
+        let exp_s: Vec<String> = exp.iter().map(show_ecmd).collect();
+        let obs_s: Vec<String> = obs.iter().map(show_ocmd).collect();
+        if let Err(e) = result {
+            let variant = e.split(|c: char| c == '(' || c == ' ').next().unwrap_or("").to_string();
+            let sig = self.sig(b, gid, &format!("err:{}", variant), "");
+            self.report(cx, b, gid, tuple, Failure {
+                rule: "visit-error",
+                sig,
+                what: format!("visiting a well-formed glyph program failed: {}", e),
+                expected: exp_s,
+                observed: obs_s,
+                panic: None,
+            });
+            return false;
+        }
+        let exact = match &g.seac {
+            Some(sc) => g.all_integer() && [sc.base, sc.accent].iter().all(|&p| b.slots[p].glyph.as_ref().map_or(true, |x| x.all_integer())),
+            None => g.all_integer(),
+        };
+        match compare_paths(&exp, obs, exact) {
+            Ok(closing) => {
+                if closing > 0 {
+                    cx.class("explicit-closing-line");
+                }
+                true
+            }
+            Err((ei, what)) => {
+                // operator form that encoded the first diverging command
+                let tag = match srcs.get(ei) {
+                    Some(&(p, (ci, Some(si)))) => b.slots[p].enc.as_ref().and_then(|e| e.seg_tags.get(ci)).and_then(|t| t.get(si)).copied().unwrap_or("?"),
+                    Some(&(p, (ci, None))) => b.slots[p].enc.as_ref().and_then(|e| e.move_tags.get(ci)).copied().unwrap_or("?"),
+                    None => "trailing",
+                };
+                let sig = self.sig(b, gid, "path", tag);
+                self.report(cx, b, gid, tuple, Failure { rule: "path-mismatch", sig, what, expected: exp_s, observed: obs_s, panic: None });
+                false
+            }
+        }
+    }
+
+    fn run(&mut self, cx: &mut Ctx, rng: &mut Rng, dir: Option<&Directed>) {
+        let b = match build_font(cx, rng, dir) {
+            Ok(b) => b,
+            Err(e) => {
+                cx.inconclusive("generator");
+                if cx.verbose {
+                    eprintln!("C18 generator: {}", e);
+                }
+                return;
+            }
+        };
+        for c in &b.classes {
+            cx.class(c);
+        }
+        let n = b.bytes.len();
+        let font_hash = hash_bytes(&b.bytes);
+        if cx.mode == "dump" {
+            // witness extraction: `vh case C18 --case-seed <hex> --mode dump`
+            let _ = std::fs::write(format!("/tmp/c18-font-{:016x}.{}", cx.case_seed, if b.flavour == Flavour::Cff2 { "cff2" } else { "cff" }), &b.bytes);
+        }
+        let gids: Vec<usize> = (0..b.slots.len()).filter(|&g| b.slots[g].enc.is_some()).collect();
+        let mut all_ok = true;
+        let mut judged = 0u32;
+        match b.flavour {
+            Flavour::Name | Flavour::Cid => {
+                let parsed = cx.guard("CFF::read", n, || ReadScope::new(&b.bytes).read::<CFF<'_>>());
+                let mut cff = match parsed {
+                    Some(Ok(c)) => c,
+                    Some(Err(e)) => {
+                        cx.violation(
+                            "parse-error",
+                            &format!("CFF::read:{}:{:?}", b.flavour.name(), e),
+                            J::obj(vec![("error", J::s(format!("{:?}", e))), ("font", hex_limited(&b.bytes, 3000))]),
+                        );
+                        return;
+                    }
+                    None => return,
+                };
+                for &gid in &gids {
+                    let mut rec = Rec::default();
+                    let r = match catch(|| cff.visit(gid as u16, &mut rec)) {
+                        Ok(r) => r.map_err(|e| format!("{:?}", e)),
+                        Err(p) => {
+                            self.report_panic(cx, &b, gid, 0, None, "CFF::visit", p);
+                            all_ok = false;
+                            continue;
+                        }
+                    };
+                    all_ok &= self.judge(cx, &b, gid, 0, None, r, &rec.0);
+                    judged += 1;
+                }
+            }
+            Flavour::Cff2 => {
+                let parsed = cx.guard("CFF2::read", n, || ReadScope::new(&b.bytes).read::<CFF2<'_>>());
+                let cff2 = match parsed {
+                    Some(Ok(c)) => c,
+                    Some(Err(e)) => {
+                        cx.violation(
+                            "parse-error",
+                            &format!("CFF2::read:{:?}", e),
+                            J::obj(vec![("error", J::s(format!("{:?}", e))), ("font", hex_limited(&b.bytes, 3000))]),
+                        );
+                        return;
+                    }
+                    None => return,
+                };
+                let fvar_bytes = cffw::fvar_table(b.vstore.as_ref().map_or(0, |v| v.axis_count));
+                let fvar = match ReadScope::new(&fvar_bytes).read::<FvarTable<'_>>() {
+                    Ok(f) => f,
+                    Err(_) => {
+                        cx.inconclusive("fvar");
+                        return;
+                    }
+                };
+                let n_t = if b.vstore.is_some() { b.tuples_raw.len() } else { 1 };
+                for ti in 0..n_t {
+                    let traw = if b.vstore.is_some() { Some(&b.tuples_raw[ti]) } else { None };
+                    let owned = match traw {
+                        Some(t) => {
+                            let vals: Vec<F2Dot14> = t.iter().map(|&v| F2Dot14::from_raw(v)).collect();
+                            match fvar.owned_tuple(&vals) {
+                                Some(o) => Some(o),
+                                None => {
+                                    cx.inconclusive("owned-tuple");
+                                    return;
+                                }
+                            }
+                        }
+                        None => None,
+                    };
+                    if traw.is_some() {
+                        cx.class("cff2:tuple");
+                    } else {
+                        cx.class("cff2:no-tuple");
+                    }
+                    for &gid in &gids {
+                        let mut rec = Rec::default();
+                        let r = catch(|| {
+                            let mut o = CFF2Outlines { table: &cff2, tuple: owned.as_ref() };
+                            o.visit(gid as u16, &mut rec)
+                        });
+                        let r = match r {
+                            Ok(r) => r.map_err(|e| format!("{:?}", e)),
+                            Err(p) => {
+                                self.report_panic(cx, &b, gid, ti, traw, "CFF2Outlines::visit", p);
+                                all_ok = false;
+                                continue;
+                            }
+                        };
+                        all_ok &= self.judge(cx, &b, gid, ti, traw, r, &rec.0);
+                        judged += 1;
+                    }
+                }
+            }
+        }
+        // non-vacuity
+        for &gid in &gids {
+            let s = &b.slots[gid];
+            if let Some(e) = &s.enc {
+                for c in &e.classes {
+                    cx.class(c);
+                }
+            }
+            cx.class("programs");
+            if s.stats.local_calls > 0 {
+                cx.class("subr:local");
+                cx.class(&format!("bias:{}", cffw::subr_bias(b.locals[s.fd].count)));
+            }
+            if s.stats.global_calls > 0 {
+                cx.class("subr:global");
+                cx.class(&format!("bias:{}", cffw::subr_bias(b.global.count)));
+            }
+            if s.stats.max_depth > 0 {
+                cx.class(&format!("depth:{}", s.stats.max_depth));
+            }
+            if s.stats.endchar_in_subr {
+                cx.class("endchar-in-subr");
+            }
+            for e in &s.stats.operand_encs {
+                cx.class(&format!("subr-operand:{}", e.name()));
+            }
+            for sp in [&b.locals[s.fd], &b.global] {
+                if s.stats.local_calls + s.stats.global_calls > 0 && matches!(sp.count, 1239 | 1240 | 33899 | 33900) {
+                    cx.class(&format!("subr-count:{}", sp.count));
+                }
+            }
+            if let Some(g) = &s.glyph {
+                if g.n_segs() > 0 || g.seac.is_some() {
+                    cx.nontrivial(mix(font_hash, gid as u64));
+                }
+                if s.fd > 0 && s.stats.local_calls > 0 {
+                    cx.class(if b.flavour == Flavour::Cff2 { "cff2:local-subr-in-fd>0" } else { "cid:local-subr-in-fd>0" });
+                }
+                if !g.all_integer() {
+                    cx.class("values:non-integer");
+                }
+            }
+        }
+        if all_ok && judged > 0 {
+            cx.class("fonts-all-glyphs-ok");
+        }
+        if cx.want_sample() && all_ok {
+            if let Some(&gid) = gids.iter().find(|&&g| b.slots[g].glyph.as_ref().map_or(false, |x| x.n_segs() > 2)) {
+                let s = &b.slots[gid];
+                let (exp, _) = self.expected_for(&b, gid, 0);
+                cx.sample(J::obj(vec![
+                    ("flavour", J::s(b.flavour.name())),
+                    ("glyph_id", J::U(gid as u64)),
+                    ("charstring", hex_limited(&cffw::toks_bytes(&s.main), 200)),
+                    ("classes", J::A(s.enc.as_ref().map_or(Vec::new(), |e| e.classes.iter().map(|c| J::s(c.clone())).collect()))),
+                    ("local_calls", J::U(s.stats.local_calls as u64)),
+                    ("global_calls", J::U(s.stats.global_calls as u64)),
+                    ("expected", J::A(exp.iter().take(12).map(|c| J::s(show_ecmd(c))).collect())),
+                ]));
+            }
+        }
+    }
+}
+
 impl Prop for C18 {
-    fn case(&mut self, cx: &mut Ctx, _rng: &mut Rng) {
-        cx.inconclusive("not-implemented");
+    fn case(&mut self, cx: &mut Ctx, rng: &mut Rng) {
+        self.run(cx, rng, None);
+    }
+
+    fn exhaustive(&mut self, cx: &mut Ctx, shard: u64, of: u64) {
+        // subroutine bias boundaries: INDEX sizes straddling 1239/1240 and 33899/33900, first / last
+        // slot and the slots whose biased number is 0, for local and global subroutines
+        if !cffw::selftest() {
+            cx.inconclusive("writer-selftest");
+            return;
+        }
+        let mut cases: Vec<Directed> = Vec::new();
+        for flavour in [Flavour::Name, Flavour::Cid, Flavour::Cff2] {
+            for count in [1usize, 1239, 1240, 33899, 33900, 65535] {
+                let bias = cffw::subr_bias(count) as usize;
+                let mut slots = vec![0, count - 1];
+                if bias < count {
+                    slots.push(bias);
+                }
+                for slot in slots {
+                    cases.push(Directed { flavour: Some(flavour), local: Some((count, slot)), global: None });
+                    cases.push(Directed { flavour: Some(flavour), local: None, global: Some((count, slot)) });
+                }
+            }
+            cases.push(Directed { flavour: Some(flavour), local: Some((1240, 5)), global: Some((1239, 1238)) });
+        }
+        for (i, d) in cases.iter().enumerate() {
+            if i as u64 % of != shard {
+                continue;
+            }
+            cx.case_seed = 0xC18_0000 + i as u64;
+            cx.evals += 1;
+            let mut rng = Rng::new(cx.case_seed);
+            cx.class("directed-bias-case");
+            self.run(cx, &mut rng, Some(d));
+        }
     }
 }
